@@ -903,6 +903,8 @@ HDR_SPEC = [
     ("bitrepr.rs", "BitRepr", "ChannelAssignment", ["count_bits", "write"]),
 ]
 HDR_ENUMS = ["ChannelAssignment", "BlockSizeSpec", "SampleSizeSpec", "SampleRateSpec"]
+# lean name -> (param types, return type, has `_exact`) of every function emitted into Gen/Headers.lean (read by part `writer`)
+HDR_DONE = {}
 
 
 def hdr_lex(src, where):
@@ -1206,6 +1208,11 @@ class HdrItems:
         if t[j] == "->":
             j += 1
             while t[j] not in ("{", "where", ";"):
+                if t[j] in ("(", "["):      # `-> &[u8; 16]`, `-> (A, B)`: the `;` / `,` inside belong to the type
+                    k = self.group_end(j)
+                    ret += t[j:k]
+                    j = k
+                    continue
                 ret.append(t[j])
                 j += 1
         if t[j] == "where":
@@ -2355,6 +2362,7 @@ def hdr_translate_fn(tx, items, rec, trait, owner):
     L.append("")
     if owner is None:
         tx.fn_sigs[name] = (ptys, rty, v.ex is not None)
+    HDR_DONE[lname] = (ptys, ("hdr", rty[1]) if isinstance(rty, tuple) and rty[0] == "enum" else rty, v.ex is not None)
     return lname, L
 
 
@@ -2459,6 +2467,2606 @@ def emit_headers():
     return "\n".join(L)
 
 
+# ===================================================================================================
+# Part `writer`: the bitstream writer (`impl BitRepr for X` of src/component/bitrepr.rs).
+#
+# The bodies of `count_bits` and `write` are PARSED (lexer and expression parser of part `headers`, extended
+# below with `let`, assignments, `for`, `while`, field access, indexing, tuples, arrays, typed closures and the
+# macros `assert!`, `debug_assert!`, `try_repeat!`) and translated statement by statement, in program order,
+# into Gen/Writer.lean: for each impl a function giving the list of `BitSink` operations `write` performs on a
+# component value (`none` = the function itself returns `Err`), and a function for `count_bits`.  Widths,
+# literals, order of statements, loop ranges, casts and the constructor of each operation come from the source
+# text.  What is NOT read from bitrepr.rs is listed in the small tables below (the trusted base of this part):
+# WR_SINK_OPS (sink method -> `Op` constructor), WR_MODEL (Rust accessor -> field of the hand-written model
+# structure; every entry carries the exact text of the accessor's Rust body, which is compared with datatype.rs),
+# the readings of the macros `try_repeat!` / `reusable!` / `reuse!` (WR_MACRO_FP: fingerprints of their definitions;
+# a changed definition fails closed), and of the std functions `max`, `min`, `Vec::resize`, `leading_zeros`.
+# Everything external to bitrepr.rs/datatype.rs that a body calls (WR_UNTRANSLATED, WR_EXTERNAL: `encode_to_utf8like`,
+# `crc::Crc::checksum`, the read-out methods of a scratch `MemSink`) is NOT given a meaning here: it becomes a
+# parameter of the generated function, and Theorems/C08Gen.lean instantiates it.  Anything else raises
+# `fail("bitrepr.rs: ...")`.
+#
+# `reuse!(KEY, |x| body)`: the thread-local storage holds whatever the previous call left.  A scratch sink must be
+# cleared by the first statement that mentions it; then come the statements that only write to it ("fill"), then
+# the statements that only read it (`as_slice`, `len`, `write_to_byte_slice`) and write to the caller's sink.  The
+# entry content of a reused `Vec<u8>` is a parameter `<KEY>_<i>` of the generated function (the same parameter is
+# passed on to callees, e.g. once per frame by `Stream.write`; C08G_frame_ops shows that the result does not depend
+# on it).
+
+import hashlib
+
+WR_SBITS = {"i8": 8, "i16": 16, "i32": 32, "i64": 64, "isize": HDR_BITS["usize"]}
+
+# `dest.<method>(args)` of the `BitSink` trait (src/bitsink.rs) -> constructor of `FlacVerif.Op` (Model/Sink.lean).
+# "w" = operand width in bits, taken from the Rust type of the value argument; "v" = value; "n" = bit count.
+WR_SINK_OPS = {
+    "write":               ("Op.write",             ["wv"]),
+    "write_lsbs":          ("Op.writeLsbs",         ["wv", "n"]),
+    "write_msbs":          ("Op.writeMsbs",         ["wv", "n"]),
+    "write_twoc":          ("Op.writeTwoc",         ["sv", "n"]),
+    "write_zeros":         ("Op.writeZeros",        ["n"]),
+    "write_bytes_aligned": ("Op.writeBytesAligned", ["bytes"]),
+    "align_to_byte":       ("Op.alignToByte",       []),
+}
+
+# Rust component type -> its view in the hand-written model (Model/Rice.lean, Model/Component.lean).
+#   kind "struct": a Lean structure; `{self}` is the value.
+#   kind "ctor":   one constructor of the inductive `FlacVerif.SubFrame`; the value is the list of constructor
+#                  arguments `fields` (in the constructor's order), `{field}` refers to one of them.
+#   kind "part":   a sub-object stored inline in the constructor arguments of its parent (`of`).
+#   kind "enum":   Rust enum whose variants are the "ctor" views above.
+# acc: accessor name -> (exact Rust body of the accessor in datatype.rs, Lean expression).  The Rust return
+# TYPE of each accessor is read from its signature in datatype.rs, not from this table.
+WR_MODEL = {
+    "StreamInfo": dict(kind="struct", lean="FlacVerif.StreamInfo", acc={
+        "min_block_size":  ("self.min_block_size as usize", "{self}.minBlock"),
+        "max_block_size":  ("self.max_block_size as usize", "{self}.maxBlock"),
+        "min_frame_size":  ("self.min_frame_size as usize", "{self}.minFrame"),
+        "max_frame_size":  ("self.max_frame_size as usize", "{self}.maxFrame"),
+        "sample_rate":     ("self.sample_rate as usize", "{self}.rate"),
+        "channels":        ("self.channels as usize", "{self}.channels"),
+        "bits_per_sample": ("self.bits_per_sample as usize", "{self}.bps"),
+        "total_samples":   ("self.total_samples as usize", "{self}.total"),
+        "md5_digest":      ("&self.md5", "{self}.md5"),
+    }),
+    "Residual": dict(kind="struct", lean="FlacVerif.Residual", acc={
+        "partition_order": ("self.partition_order as usize", "{self}.order"),
+        "block_size":      ("self.block_size", "{self}.blockSize"),
+        "warmup_length":   ("self.warmup_length", "{self}.warmup"),
+        "rice_params":     ("&self.rice_params", "{self}.params"),
+        "quotients":       ("&self.quotients", "{self}.quotients"),
+        "remainders":      ("&self.remainders", "{self}.remainders"),
+        # cached sums (set by `from_parts`, compared with the recomputed sums by `Residual::verify`)
+        "sum_quotients":   ("self.sum_quotients", "({self}.quotients.foldl (· + ·) 0)"),
+        "sum_rice_params": ("self.sum_rice_params", "({self}.params.foldl (· + ·) 0)"),
+    }),
+    "Constant": dict(kind="ctor", of="FlacVerif.SubFrame", ctor="constant",
+                     fields=[("blockSize", "Nat"), ("dc", "Int"), ("bps", "Nat")], acc={
+        "block_size":      ("self.block_size", "{blockSize}"),
+        "dc_offset":       ("self.dc_offset", "{dc}"),
+        "bits_per_sample": ("self.bits_per_sample as usize", "{bps}"),
+    }),
+    "Verbatim": dict(kind="ctor", of="FlacVerif.SubFrame", ctor="verbatim",
+                     fields=[("samples", "List Int"), ("bps", "Nat")], acc={
+        "samples":         ("&self.data", "{samples}"),
+        "bits_per_sample": ("self.bits_per_sample as usize", "{bps}"),
+    }),
+    "FixedLpc": dict(kind="ctor", of="FlacVerif.SubFrame", ctor="fixed",
+                     fields=[("warmup", "List Int"), ("res", "FlacVerif.Residual"), ("bps", "Nat")], acc={
+        "order":           ("self.warm_up.len()", "{warmup}.length"),
+        "warm_up":         ("&self.warm_up", "{warmup}"),
+        "residual":        ("&self.residual", "{res}"),
+        "bits_per_sample": ("self.bits_per_sample as usize", "{bps}"),
+    }),
+    "Lpc": dict(kind="ctor", of="FlacVerif.SubFrame", ctor="lpc",
+                fields=[("warmup", "List Int"), ("coefs", "List Int"), ("shift", "Int"), ("precision", "Nat"),
+                        ("res", "FlacVerif.Residual"), ("bps", "Nat")], acc={
+        "order":           ("self.parameters.order()", "{coefs}.length"),
+        "warm_up":         ("&self.warm_up", "{warmup}"),
+        "parameters":      ("&self.parameters", "@QuantizedParameters"),
+        "residual":        ("&self.residual", "{res}"),
+        "bits_per_sample": ("self.bits_per_sample as usize", "{bps}"),
+    }),
+    # `coefs()` is the Vec of the first `order` lanes of the SIMD array: its length IS `order()`
+    "QuantizedParameters": dict(kind="part", of="Lpc", fields=["coefs", "shift", "precision"], acc={
+        "order":     ("self.order", "{coefs}.length"),
+        "precision": ("self.precision", "{precision}"),
+        "shift":     ("self.shift", "{shift}"),
+        "coefs":     ("(0..self.order()).map(|j| self.coefs[j]).collect()", "{coefs}"),
+    }),
+    "SubFrame": dict(kind="enum", lean="FlacVerif.SubFrame",
+                     variants={"Constant": "Constant", "Verbatim": "Verbatim", "FixedLpc": "FixedLpc", "Lpc": "Lpc"}),
+}
+
+# Types that have no structural counterpart in the hand-written model (it keeps `info`, a list of unknown
+# blocks and the frames, and derives the `is_last` flags from the position; its frame header holds model-side
+# enums): their Lean types are GENERATED from the Rust definitions in datatype.rs, and Theorems/C08Gen.lean
+# relates them to the model by explicit maps.  Accessors of these types must be trivial (`&self.f`, `self.f`,
+# `self.f.as_ref()`): the field is read from the accessor's body.
+WR_GENERATED = ["MetadataBlockData", "MetadataBlock", "FrameHeader", "Frame", "Stream"]
+
+# sha256 of the token text of the macro definitions whose meaning is built into this translator:
+#   try_repeat!(c to N; while cond => body)  ==  for c in 0..N { if !cond { return Ok(()) } body?; } Ok(())
+#   reusable!(KEY: T = init); reuse!(KEY, |x: &mut T| body)  ==  body, with x a thread-local value of type T whose
+#   content on entry is whatever the previous call left in it (NOT `init`)
+WR_MACRO_FP = {
+    ("repeat.rs", "try_repeat"): "55d0251f2aff10e0",
+    ("repeat.rs", "seq"): "ecd0dc8eb0f10106",
+    ("lib.rs", "reusable"): "d790fd6fd5cee1bc",
+    ("lib.rs", "reuse"): "ef7a5ff5070a9c6e",
+}
+
+# (impl type, [functions])   in emission order (callees first)
+WR_SPEC = [
+    ("Residual", ["count_bits", "write"]),
+    ("Constant", ["count_bits", "write"]),
+    ("Verbatim", ["count_bits", "write"]),
+    ("FixedLpc", ["count_bits", "write"]),
+    ("Lpc", ["count_bits", "write"]),
+    ("SubFrame", ["count_bits", "write"]),
+    ("StreamInfo", ["count_bits", "write"]),
+    ("MetadataBlockData", ["count_bits", "write"]),
+    ("MetadataBlock", ["count_bits", "write"]),
+    ("FrameHeader", ["count_bits", "write"]),
+    ("Frame", ["count_bits", "write"]),
+    ("Stream", ["count_bits", "write"]),
+]
+# functions of the BitRepr impls that are deliberately NOT translated (callers take them as a parameter)
+WR_UNTRANSLATED = {
+    (None, "encode_to_utf8like"): "mutable shifts (`val <<= ..`) and pushes in a loop, `return Err` inside a branch; callers "
+                                  "take it as a parameter",
+}
+# external values whose meaning is not in this crate: callers take them as a parameter
+#   <static of type crc::Crc<uN, _>>.checksum(bytes) : uN          (crate `crc`)
+#   <scratch MemSink>.as_slice() / .len() / .write_to_byte_slice(dest): functions of the operations a cleared MemSink
+#   received (src/bitsink.rs; modelled and verified separately: Model/Sink.lean, C05/C06)
+WR_EXTERNAL = ["checksum", "as_slice", "len", "write_to_byte_slice"]
+# helper functions (file, impl type or None, name) translated before the impls
+WR_HELPERS = [
+    ("bitrepr.rs", None, "utf8like_bytesize"),
+    ("datatype.rs", "Verbatim", "count_bits_from_metadata"),
+    ("datatype.rs", "MetadataBlockData", "typetag"),
+]
+
+WR_LEAN_RESERVED = {"end", "at", "from", "fun", "do", "then", "else", "if", "match", "with", "in", "let", "have", "show",
+                    "by", "theorem", "def", "open", "namespace", "section", "variable", "instance", "where", "deriving",
+                    "structure", "inductive", "class", "macro", "syntax", "import", "export", "private", "protected",
+                    "partial", "unsafe", "mutual", "universe", "axiom", "example", "abbrev", "opaque", "notation",
+                    "infix", "infixl", "infixr", "prefix", "postfix", "attribute", "set_option", "using", "calc",
+                    "forall", "exists", "Type", "Prop", "Sort", "nomatch", "nofun", "return", "for", "unless",
+                    "try", "catch", "finally", "mut", "break", "continue", "true", "false", "some", "none", "emit",
+                    "seqW", "forW", "max", "min", "this", "suffices", "obtain", "termination_by", "decreasing_by"}
+
+
+def wr_mangle(name):
+    return name + "_" if name in WR_LEAN_RESERVED else name
+
+
+class WrParser(HdrParser):
+    """HdrParser + statements (`let`, assignment, `for`, `while`), field access, indexing, tuples, arrays, typed
+    closure parameters, struct / `Some(..)` patterns, and the macros this part understands."""
+
+    ASSIGN = ("=", "+=", "-=", "*=", "/=", "%=", "<<=", ">>=", "|=", "&=", "^=")
+
+    def sub(self, toks):
+        return WrParser(toks, 0, len(toks), self.where)
+
+    def block(self):
+        self.eat("{")
+        stmts = []
+        tail = None
+        while True:
+            self.skip_attrs()
+            x = self.peek()
+            if x == "}":
+                self.p += 1
+                break
+            if x == ";":
+                self.p += 1
+                continue
+            if x == "let":
+                stmts.append(self.let_())
+                continue
+            if x in ("if", "match", "for", "while", "{"):
+                e = {"if": self.if_, "match": self.match, "for": self.for_, "while": self.while_, "{": self.block}[x]()
+                if self.peek() in (".", "?") or (self.peek() in self.ASSIGN):
+                    self.err("operator applied to a block-like expression statement")
+                if self.peek() == "}":
+                    self.p += 1
+                    tail = e
+                    break
+                if self.peek() == ";":
+                    self.p += 1
+                stmts.append(e)
+                continue
+            e = self.expr()
+            if self.peek() in self.ASSIGN:
+                op = self.peek()
+                self.p += 1
+                rhs = self.expr()
+                self.eat(";")
+                stmts.append(("assign", op, e, rhs))
+                continue
+            if self.peek() == ";":
+                self.p += 1
+                stmts.append(e)
+            elif self.peek() == "}":
+                tail = e
+            else:
+                self.err(f"expected `;` or `}}` after expression, found {self.peek()!r}")
+        return ("block", stmts, tail)
+
+    def type_until(self, stops):
+        out = []
+        d = 0
+        while True:
+            x = self.peek()
+            if x is None:
+                self.err("type")
+            if d == 0 and x in stops:
+                return out
+            if x in ("<", "(", "["):
+                d += 1
+            elif x in (">", ")", "]"):
+                d -= 1
+            elif x == ">>":
+                d -= 2
+            if d < 0:
+                return out
+            out.append(x)
+            self.p += 1
+
+    def let_(self):
+        self.eat("let")
+        if self.peek() == "(":
+            self.p += 1
+            names = []
+            while self.peek() != ")":
+                m = False
+                if self.peek() == "mut":
+                    m = True
+                    self.p += 1
+                if not self.is_ident(self.peek()) and self.peek() != "_":
+                    self.err("tuple pattern in `let`")
+                names.append((self.peek(), m))
+                self.p += 1
+                if self.peek() == ",":
+                    self.p += 1
+                elif self.peek() != ")":
+                    self.err("tuple pattern in `let`")
+            self.p += 1
+            pat = ("tuplepat", names)
+        else:
+            m = False
+            if self.peek() == "mut":
+                m = True
+                self.p += 1
+            if not (self.is_ident(self.peek()) or self.peek() == "_") or not re.fullmatch(r"[a-z_][a-z0-9_]*", self.peek()):
+                self.err(f"pattern in `let`: {self.peek()!r}")
+            pat = ("bind", self.peek(), m)
+            self.p += 1
+        ty = None
+        if self.peek() == ":":
+            self.p += 1
+            ty = self.type_until(("=", ";"))
+        if self.peek() != "=":
+            self.err("`let` without initialiser")
+        self.p += 1
+        e = self.expr()
+        if self.peek() == "else":
+            self.err("let-else")
+        self.eat(";")
+        return ("let", pat, ty, e)
+
+    def for_(self):
+        self.eat("for")
+        if not (self.is_ident(self.peek()) or self.peek() == "_"):
+            self.err("pattern of `for`")
+        v = self.peek()
+        self.p += 1
+        self.eat("in")
+        it = self.expr()
+        if self.peek() == "..":
+            self.p += 1
+            it = ("range", it, self.expr())
+        elif self.peek() == "..=":
+            self.err("inclusive range")
+        body = self.block()
+        return ("for", v, it, body)
+
+    def while_(self):
+        self.eat("while")
+        if self.peek() == "let":
+            self.err("while-let")
+        c = self.expr()
+        return ("while", c, self.block())
+
+    def generic_toks(self):
+        start = self.p
+        self.generic_args()
+        return self.t[start + 1:self.p - 1]
+
+    def postfix(self):
+        e = self.primary()
+        while True:
+            x = self.peek()
+            if x == "(":
+                e = ("call", e, self.args())
+            elif x == "." and self.is_ident(self.peek(1)):
+                name = self.peek(1)
+                self.p += 2
+                gen = None
+                if self.peek() == "::":
+                    self.p += 1
+                    gen = self.generic_toks()
+                if self.peek() == "(":
+                    e = ("mcall", e, name, self.args(), gen)
+                elif gen is not None:
+                    self.err(f"generic arguments on field .{name}")
+                else:
+                    e = ("field", e, name)
+            elif x == "." and self.peek(1) is not None and re.fullmatch(r"\d+", self.peek(1)):
+                e = ("tupidx", e, int(self.peek(1)))
+                self.p += 2
+            elif x == "[":
+                self.p += 1
+                idx = self.expr()
+                if self.peek() in ("..", "..="):
+                    self.err("slice range")
+                self.eat("]")
+                e = ("index", e, idx)
+            elif x == "?":
+                self.p += 1
+                e = ("try", e)
+            else:
+                return e
+
+    def primary(self):
+        x = self.peek()
+        if x == "(":
+            self.p += 1
+            if self.peek() == ")":
+                self.p += 1
+                return ("unit",)
+            e = self.expr()
+            if self.peek() == ",":
+                items = [e]
+                while self.peek() == ",":
+                    self.p += 1
+                    if self.peek() == ")":
+                        break
+                    items.append(self.expr())
+                self.eat(")")
+                return ("tuple", items)
+            self.eat(")")
+            return ("paren", e)
+        if x == "[":
+            self.p += 1
+            items = []
+            while self.peek() != "]":
+                items.append(self.expr())
+                if self.peek() == ",":
+                    self.p += 1
+                elif self.peek() == ";":
+                    self.err("array repeat expression")
+                elif self.peek() != "]":
+                    self.err("array literal")
+            self.p += 1
+            return ("array", items)
+        if x == "|":
+            self.p += 1
+            ps = []
+            while self.peek() != "|":
+                if not self.is_ident(self.peek()):
+                    self.err("closure parameter")
+                nm = self.peek()
+                self.p += 1
+                ty = None
+                if self.peek() == ":":
+                    self.p += 1
+                    ty = self.type_until((",", "|"))
+                ps.append((nm, ty))
+                if self.peek() == ",":
+                    self.p += 1
+            self.p += 1
+            return ("closure", ps, self.expr())
+        if x in ("for", "while", "loop", "break", "continue", "unsafe", "async", "move"):
+            self.err(f"`{x}` in expression position")
+        e = HdrParser.primary(self)
+        if e[0] == "macro":
+            return self.macro(e[1], e[2])
+        return e
+
+    def macro(self, name, toks):
+        if name in ("assert", "debug_assert"):
+            ps = self.sub(toks)
+            c = ps.expr()
+            if ps.peek() is not None:
+                if ps.peek() != ",":
+                    ps.err(f"{name}! arguments")
+                # the rest is the panic message
+            return ("assert", c, name == "debug_assert")
+        if name == "try_repeat":
+            ps = self.sub(toks)
+            if not ps.is_ident(ps.peek()):
+                ps.err("try_repeat!: counter")
+            ctr = ps.peek()
+            ps.p += 1
+            if ps.peek() != "to":
+                ps.err("try_repeat!: expected `to`")
+            ps.p += 1
+            upto = ps.expr()
+            ps.eat(";")
+            ps.eat("while")
+            cond = ps.expr()
+            ps.eat("=>")
+            body = ps.block()
+            if ps.peek() is not None:
+                ps.err("try_repeat!: trailing tokens")
+            return ("tryrepeat", ctr, upto, cond, body)
+        if name == "reuse":
+            ps = self.sub(toks)
+            if not ps.is_ident(ps.peek()):
+                ps.err("reuse!: key")
+            key = ps.peek()
+            ps.p += 1
+            ps.eat(",")
+            clo = ps.expr()
+            if ps.peek() is not None or clo[0] != "closure" or len(clo[1]) != 1:
+                ps.err("reuse!: expected `KEY, |x: &mut T| { .. }`")
+            return ("reuse", key, clo)
+        return ("macro", name, toks)
+
+    def pattern(self):
+        x = self.peek()
+        if x == "_":
+            self.p += 1
+            return ("wild",)
+        if x is not None and re.fullmatch(r"\d.*", x):
+            v, suf = hdr_int_literal(x, self.where)
+            self.p += 1
+            if self.peek() in ("..", "..=", "..."):
+                self.err("range pattern")
+            return ("lit", v, suf)
+        if not (self.is_ident(x) or x == "Self"):
+            self.err(f"pattern starting with {x!r}")
+        segs = self.path()
+        if self.peek() == "(":
+            self.p += 1
+            sub = []
+            while self.peek() != ")":
+                y = self.peek()
+                if y == "_":
+                    sub.append(("wild",))
+                elif self.is_ident(y) and re.fullmatch(r"[a-z_][a-z0-9_]*", y):
+                    sub.append(("bind", y))
+                else:
+                    self.err(f"sub-pattern {y!r}")
+                self.p += 1
+                if self.peek() == ",":
+                    self.p += 1
+                elif self.peek() != ")":
+                    self.err("sub-pattern list")
+            self.p += 1
+            return ("variant", segs, sub)
+        if self.peek() == "{":
+            self.p += 1
+            fields = []
+            rest = False
+            while self.peek() != "}":
+                if self.peek() == "..":
+                    self.p += 1
+                    rest = True
+                    if self.peek() != "}":
+                        self.err("`..` must end a struct pattern")
+                    break
+                f = self.peek()
+                if not self.is_ident(f):
+                    self.err("struct pattern field")
+                self.p += 1
+                b = f
+                if self.peek() == ":":
+                    self.p += 1
+                    b = self.peek()
+                    if not (self.is_ident(b) and re.fullmatch(r"[a-z_][a-z0-9_]*", b)) and b != "_":
+                        self.err("struct pattern binding")
+                    self.p += 1
+                fields.append((f, b))
+                if self.peek() == ",":
+                    self.p += 1
+                elif self.peek() != "}":
+                    self.err("struct pattern")
+            self.p += 1
+            return ("svariant", segs, fields, rest)
+        if self.peek() == "@":
+            self.err("`@` pattern")
+        if len(segs) == 1:
+            if not re.fullmatch(r"[a-z_][a-z0-9_]*", segs[0]):
+                self.err(f"pattern {segs[0]!r} is neither a lower-case binding nor a path")
+            return ("bind", segs[0])
+        return ("variant", segs, [])
+
+
+# ---- item scanners for datatype.rs: struct and enum definitions of the generated types, `const` items
+
+def wr_split_top(toks, sep=","):
+    """split a token list at top-level separators (brackets and angle brackets nest)"""
+    out, cur, d = [], [], 0
+    for z in toks:
+        if z in ("(", "[", "{", "<"):
+            d += 1
+        elif z in (")", "]", "}", ">"):
+            d -= 1
+        elif z == ">>":
+            d -= 2
+        if z == sep and d == 0:
+            out.append(cur)
+            cur = []
+        else:
+            cur.append(z)
+    if cur:
+        out.append(cur)
+    return out
+
+
+def wr_strip_field_attrs(toks, where):
+    """drop `#[..]` attributes (a `#[cfg..]` is not accepted: it would make the field conditional) and `pub(..)`"""
+    t = list(toks)
+    while t:
+        if t[0] == "#":
+            if t[1] != "[":
+                fail(f"{where}: attribute")
+            d, j = 0, 1
+            while True:
+                if t[j] == "[":
+                    d += 1
+                elif t[j] == "]":
+                    d -= 1
+                j += 1
+                if d == 0:
+                    break
+            if t[2] == "cfg":
+                fail(f"{where}: #[cfg] on a field or variant")
+            t = t[j:]
+        elif t[0] == "pub":
+            t = t[1:]
+            if t and t[0] == "(":
+                j = t.index(")")
+                t = t[j + 1:]
+        else:
+            break
+    return t
+
+
+def wr_scan_types(items, names):
+    """-> {name: ("struct", [(field, type toks)]) | ("enum", [(variant, "unit"|"tuple"|"struct", payload)])}"""
+    t = items.toks
+    out = {}
+    i = 0
+    while i < len(t):
+        if t[i] in ("struct", "enum") and i + 1 < len(t) and t[i + 1] in names and (i == 0 or t[i - 1] in ("pub", ")", "]", "}", ";")):
+            kind, name = t[i], t[i + 1]
+            where = f"{items.fname}: {kind} {name}"
+            if name in out:
+                fail(f"{where}: defined twice")
+            if t[i + 2] != "{":
+                fail(f"{where}: generic, tuple or unit definition")
+            end = items.group_end(i + 2)
+            parts = [wr_strip_field_attrs(p, where) for p in wr_split_top(t[i + 3:end - 1])]
+            parts = [p for p in parts if p]
+            if kind == "struct":
+                fields = []
+                for p in parts:
+                    if len(p) < 3 or p[1] != ":" or not re.fullmatch(r"[a-z_][a-z0-9_]*", p[0]):
+                        fail(f"{where}: field `{' '.join(p)}`")
+                    fields.append((p[0], p[2:]))
+                out[name] = ("struct", fields)
+            else:
+                vs = []
+                for p in parts:
+                    v = p[0]
+                    if not re.fullmatch(r"[A-Z][A-Za-z0-9_]*", v):
+                        fail(f"{where}: variant `{' '.join(p)}`")
+                    if len(p) == 1:
+                        vs.append((v, "unit", []))
+                    elif p[1] == "(" and p[-1] == ")":
+                        vs.append((v, "tuple", wr_split_top(p[2:-1])))
+                    elif p[1] == "{" and p[-1] == "}":
+                        fs = []
+                        for q in wr_split_top(p[2:-1]):
+                            q = wr_strip_field_attrs(q, where)
+                            if not q:
+                                continue
+                            if len(q) < 3 or q[1] != ":":
+                                fail(f"{where}::{v}: field `{' '.join(q)}`")
+                            fs.append((q[0], q[2:]))
+                        vs.append((v, "struct", fs))
+                    else:
+                        fail(f"{where}: variant `{' '.join(p)}` (explicit discriminant?)")
+                out[name] = ("enum", vs)
+            i = end
+            continue
+        i += 1
+    return out
+
+
+def wr_scan_consts(items):
+    """file-level `const NAME: T = <int literal>;` -> {NAME: (value, type)}"""
+    t = items.toks
+    out = {}
+    d = 0
+    for i, x in enumerate(t):
+        if x in ("{", "(", "["):
+            d += 1
+        elif x in ("}", ")", "]"):
+            d -= 1
+        elif x == "const" and d == 0 and i + 6 < len(t) and t[i + 2] == ":" and t[i + 4] == "=" and t[i + 6] == ";" \
+                and t[i + 3] in HDR_BITS and re.fullmatch(r"\d.*", t[i + 5]):
+            v, suf = hdr_int_literal(t[i + 5], f"{items.fname}: const {t[i + 1]}")
+            if suf is not None and suf != t[i + 3]:
+                fail(f"{items.fname}: const {t[i + 1]}: literal suffix")
+            out[t[i + 1]] = (v, t[i + 3])
+    return out
+
+
+def wr_body_text(items, rec):
+    lo, hi = rec["body"]
+    t = items.toks[lo + 1:hi - 1]
+    s = ""
+    for i, x in enumerate(t):
+        if i and (re.match(r"\w", x) and re.match(r"\w", t[i - 1][-1:])):
+            s += " "
+        s += x
+    return s
+
+
+class WV:
+    """translated value: Lean text, Rust type, exactness condition (Lean Bool text, None = true), literal value,
+    view (constructor-argument record for "ctor"/"part" types)"""
+    __slots__ = ("lean", "ty", "ex", "lit", "view")
+
+    def __init__(self, lean, ty, ex=None, lit=None, view=None):
+        self.lean, self.ty, self.ex, self.lit, self.view = lean, ty, ex, lit, view
+
+
+def wr_is_u(ty):
+    return isinstance(ty, str) and ty in HDR_BITS
+
+
+def wr_is_s(ty):
+    return isinstance(ty, str) and ty in WR_SBITS
+
+
+def wr_bits(ty):
+    return HDR_BITS[ty] if ty in HDR_BITS else WR_SBITS[ty]
+
+
+def wr_ind(s, k=2):
+    return hdr_indent(s, k)
+
+
+def wr_and(*xs):
+    xs = [x for x in xs if x is not None and x != "true"]
+    if not xs:
+        return None
+    return xs[0] if len(xs) == 1 else "(" + " && ".join(xs) + ")"
+
+
+def wr_words(s):
+    return set(re.findall(r"[A-Za-z_][A-Za-z0-9_']*", s))
+
+
+class WrVar:
+    __slots__ = ("lean", "ty", "lit", "view", "mut")
+
+    def __init__(self, lean, ty, lit=None, view=None, mut=False):
+        self.lean, self.ty, self.lit, self.view, self.mut = lean, ty, lit, view, mut
+
+
+class WrK:
+    """How a statement sequence is rendered.  kind: "P" pure value, "W" operation list, "S" operation list plus
+    carried loop state, "L" carried loop state of a pure loop.  mode: "V" the value, "E" the exactness condition
+    (Bool, or Bool × state for "S"/"L")."""
+
+    def __init__(self, kind, mode, state=(), want=None):
+        self.kind, self.mode, self.state, self.want = kind, mode, tuple(state), want
+        self.result_ty = None
+
+    def st(self):
+        names = [wr_mangle(n) for n in self.state]
+        return names[0] if len(names) == 1 else "(" + ", ".join(names) + ")"
+
+    def true_(self):
+        return "true" if self.kind in ("P", "W") else f"(true, {self.st()})"
+
+    def final(self):
+        if self.mode == "E":
+            return self.true_()
+        return {"W": "some []", "S": f"retS {self.st()}", "L": self.st()}[self.kind]
+
+    def cond(self, c, rest):
+        if self.mode == "V" or c is None or c == "true":
+            return rest
+        if self.kind in ("P", "W"):
+            return c if rest == "true" else f"andB {wr_par(c)} <|\n{rest}"
+        return f"andE {wr_par(c)} <|\n{rest}"
+
+    def emit(self, op, rest):
+        if self.mode == "E":
+            return rest
+        return f"{'emit' if self.kind == 'W' else 'emitS'} [{op}] <|\n{rest}"
+
+    def seq(self, w, wex, rest):
+        if self.mode == "E":
+            return self.cond(wex, rest)
+        if self.kind == "W" and rest == "some []" and "\n" not in w:
+            return w
+        return f"{'seqW' if self.kind == 'W' else 'seqS'} {wr_par(w)} <|\n{rest}"
+
+    def errif(self, c, rest):
+        if self.mode == "E":
+            return f"if {c} then {self.true_()} else\n{rest}"
+        return f"if {c} then none else\n{rest}"
+
+    def let(self, pat, val, rest, names):
+        if self.mode == "E" and rest == "true":
+            return rest
+        if self.mode == "E" and self.kind in ("P", "W") and not (set(names) & wr_words(rest)):
+            return rest
+        if "\n" in val:
+            return f"let {pat} :=\n{wr_ind(val)}\n{rest}"
+        return f"let {pat} := {val}\n{rest}"
+
+
+def wr_par(s):
+    """parenthesise a (possibly multi-line) term, keeping the alignment of its continuation lines"""
+    s = s.strip("\n")
+    if "\n" not in s:
+        if re.fullmatch(r"[A-Za-z_][A-Za-z0-9_.']*|\d+|\(.*\)|\[.*\]", s) and wr_balanced(s):
+            return s
+        return "(" + s + ")"
+    return "(" + s.replace("\n", "\n ") + ")"
+
+
+def wr_balanced(s):
+    """is the outermost bracket pair of s one group (so that no further parentheses are needed)?"""
+    if not s or s[0] not in "([":
+        return True
+    d = 0
+    for i, c in enumerate(s):
+        if c in "([":
+            d += 1
+        elif c in ")]":
+            d -= 1
+            if d == 0 and i != len(s) - 1:
+                return False
+    return d == 0
+
+
+class WrTx:
+    def __init__(self, files, gen_defs, consts, hdr_done, use_max):
+        self.files = files          # file name -> HdrItems
+        self.gen_raw = gen_defs     # generated type name -> raw definition (wr_scan_types)
+        self.gen = {}               # generated type name -> parsed definition
+        self.consts = consts        # bitrepr.rs constants: name -> (value, type)
+        self.hdr = hdr_done         # functions of Gen/Headers.lean: lean name -> (param types, ret type, has_exact)
+        self.use_max = use_max
+        self.fns = {}               # (owner | None, name) -> dict(lean, self_kind, ptys, ret, has_ex, extra)
+        self.where = ""
+        self.owner = None
+        self.extra = None           # uninterpreted callees of the function being translated: lean param name -> lean type
+        self.used_consts = []
+        self.checked_acc = set()
+        self.statics = {}           # `static NAME: crc::Crc<uN, ..>` of bitrepr.rs -> "uN"
+        self.reusables = {}         # `reusable!(KEY: T = ..)` of bitrepr.rs -> type text
+        self.scratch = None         # name of the scratch sink being filled (inside a `reuse!` closure)
+        self.scratch_ty = None
+
+    def err(self, msg):
+        fail(f"{self.where}: {msg}")
+
+    # ---------------------------------------------------------------- types
+    def ty(self, toks):
+        t = []
+        for x in toks:
+            if x.startswith("'"):
+                continue
+            if x == ">>":
+                t += [">", ">"]
+            elif x == "&&":
+                t += ["&", "&"]
+            else:
+                t.append(x)
+        while t and t[0] in ("&", "mut"):
+            t = t[1:]
+        if not t:
+            self.err("empty type")
+        s = "".join(t)
+        if s in HDR_BITS or s in WR_SBITS:
+            return s
+        if s == "bool":
+            return "bool"
+        if s == "Self":
+            if self.owner is None:
+                self.err("`Self` outside an impl")
+            return ("st", self.owner)
+        if s in WR_MODEL or s in WR_GENERATED:
+            return ("st", s)
+        if s in HDR_ENUMS:
+            return ("hdr", s)
+        if t[0] == "[" and t[-1] == "]":
+            parts = wr_split_top(t[1:-1], ";")
+            if len(parts) not in (1, 2):
+                self.err(f"type `{s}`")
+            return ("list", self.ty(parts[0]))
+        if t[0] == "(" and t[-1] == ")":
+            parts = wr_split_top(t[1:-1])
+            if len(parts) < 2:
+                self.err(f"type `{s}`")
+            return ("tuple", tuple(self.ty(p) for p in parts))
+        head = None
+        for h in (["Vec"], ["heapless", "::", "Vec"], ["Option"], ["Result"]):
+            if t[:len(h)] == h and len(t) > len(h) + 2 and t[len(h)] == "<" and t[-1] == ">":
+                head = h[-1]
+                args = wr_split_top(t[len(h) + 1:-1])
+                break
+        if head == "Vec":
+            if len(args) not in (1, 2):
+                self.err(f"type `{s}`")
+            return ("list", self.ty(args[0]))
+        if head == "Option" and len(args) == 1:
+            return ("opt", self.ty(args[0]))
+        if head == "Result" and len(args) == 2 and args[0] == ["(", ")"]:
+            return "writes"
+        if head == "Result" and len(args) == 2:
+            return ("res", self.ty(args[0]))     # Err = the function's own error (a RangeError): `none`
+        self.err(f"unsupported type `{s}`")
+
+    def lty(self, ty):
+        if wr_is_u(ty):
+            return "Nat"
+        if wr_is_s(ty):
+            return "Int"
+        if ty == "bool":
+            return "Bool"
+        if ty == "writes":
+            return "W"
+        if isinstance(ty, tuple):
+            if ty[0] == "list":
+                return "List " + wr_par(self.lty(ty[1]))
+            if ty[0] in ("opt", "res"):
+                return "Option " + wr_par(self.lty(ty[1]))
+            if ty[0] == "tuple":
+                return "(" + " × ".join(self.lty(x) for x in ty[1]) + ")"
+            if ty[0] == "hdr":
+                return f"FlacVerif.Gen.Headers.{ty[1]}"
+            if ty[0] == "st":
+                n = ty[1]
+                if n in WR_MODEL:
+                    if WR_MODEL[n]["kind"] in ("struct", "enum"):
+                        return WR_MODEL[n]["lean"]
+                    self.err(f"{n} has no Lean type of its own (it is a constructor of SubFrame in the model)")
+                if n in WR_GENERATED:
+                    return n
+        self.err(f"no Lean type for {ty!r}")
+
+    def default(self, ty):
+        if wr_is_u(ty) or wr_is_s(ty):
+            return "0"
+        self.err(f"indexing a list of {ty!r}")
+
+    def parse_gen_types(self):
+        for n in WR_GENERATED:
+            if n not in self.gen_raw:
+                fail(f"datatype.rs: definition of {n} not found")
+            kind, body = self.gen_raw[n]
+            self.where = f"datatype.rs: {kind} {n}"
+            self.owner = n
+            if kind == "struct":
+                self.gen[n] = ("struct", [(f, self.ty(t)) for f, t in body])
+            else:
+                vs = []
+                for v, vk, payload in body:
+                    if vk == "unit":
+                        vs.append((v, vk, []))
+                    elif vk == "tuple":
+                        vs.append((v, vk, [(f"a{i}", self.ty(p)) for i, p in enumerate(payload)]))
+                    else:
+                        vs.append((v, vk, [(f, self.ty(t)) for f, t in payload]))
+                self.gen[n] = ("enum", vs)
+        self.owner = None
+
+    # ---------------------------------------------------------------- struct values
+    def self_value(self, owner):
+        """-> (lean parameter list, WV of `self`)"""
+        if owner in WR_MODEL:
+            info = WR_MODEL[owner]
+            if info["kind"] in ("struct", "enum"):
+                return [f"(self : {info['lean']})"], WV("self", ("st", owner))
+            if info["kind"] == "ctor":
+                return [f"({f} : {t})" for f, t in info["fields"]], WV(None, ("st", owner), view={f: f for f, _ in info["fields"]})
+            self.err(f"{owner}: functions of a sub-object view are not translated")
+        if owner in self.gen:
+            return [f"(self : {owner})"], WV("self", ("st", owner))
+        self.err(f"{owner}: unknown component type")
+
+    def call_args(self, v):
+        """Lean argument text for passing the component value v to one of its translated functions"""
+        n = v.ty[1]
+        if n in WR_MODEL and WR_MODEL[n]["kind"] == "ctor":
+            return " ".join(wr_par(v.view[f]) for f, _ in WR_MODEL[n]["fields"])
+        return wr_par(v.lean)
+
+    def dt_fn(self, T, m):
+        dt = self.files["datatype.rs"]
+        tab = dt.impls.get((None, T))
+        if tab is None or m not in tab:
+            self.err(f"datatype.rs: fn {T}::{m} not found")
+        rec = tab[m]
+        if rec["body"] is None:
+            self.err(f"datatype.rs: fn {T}::{m} has no body")
+        if any(a.startswith("#[cfg") for a in rec["attrs"]):
+            self.err(f"datatype.rs: fn {T}::{m} is conditionally compiled")
+        return dt, rec
+
+    def accessor(self, r, m, args):
+        T = r.ty[1]
+        dt, rec = self.dt_fn(T, m)
+        if args or rec["params"] not in ([["&", "self"]], [["self"]]):
+            self.err(f"{T}::{m}: an accessor takes only `&self`")
+        save = self.owner
+        self.owner = T
+        rty = self.ty(rec["ret"])
+        self.owner = save
+        if T in WR_MODEL:
+            info = WR_MODEL[T]
+            if m not in info.get("acc", {}):
+                self.err(f"`{T}::{m}()` is not in the accessor table WR_MODEL")
+            body, tmpl = info["acc"][m]
+            if (T, m) not in self.checked_acc:
+                lo, hi = rec["body"]
+                if dt.toks[lo + 1:hi - 1] != hdr_lex(body, "WR_MODEL"):
+                    self.err(f"datatype.rs: body of the accessor {T}::{m} is `{wr_body_text(dt, rec)}`, the accessor table "
+                             f"was written for `{body}`")
+                self.checked_acc.add((T, m))
+            if tmpl.startswith("@"):
+                P = tmpl[1:]
+                if rty != ("st", P):
+                    self.err(f"{T}::{m}: return type is not {P}")
+                return WV(None, rty, r.ex, view={f: r.view[f] for f in WR_MODEL[P]["fields"]})
+            lean = tmpl.format(self=r.lean) if info["kind"] == "struct" else tmpl.format(**{k: v for k, v in r.view.items()})
+            if isinstance(rty, tuple) and rty[0] == "st" and rty[1] in WR_MODEL and WR_MODEL[rty[1]]["kind"] in ("ctor", "part"):
+                self.err(f"{T}::{m}: returns a {rty[1]} that is not a sub-object view")
+            # the Lean type of a plain field must be the image of the Rust return type
+            fm = re.fullmatch(r"\{(\w+)\}", tmpl)
+            if fm and info["kind"] == "ctor":
+                decl = dict(info["fields"])[fm.group(1)]
+                if decl != self.lty(rty):
+                    self.err(f"{T}::{m}: Rust type {rty!r} does not correspond to the model field `{fm.group(1)} : {decl}`")
+            return WV(lean, rty, r.ex)
+        # generated type: the accessor must be trivial; the field is read from its body
+        lo, hi = rec["body"]
+        b = dt.toks[lo + 1:hi - 1]
+        if b and b[0] == "&":
+            b = b[1:]
+        if len(b) == 7 and b[3:] == [".", "as_ref", "(", ")"]:
+            b = b[:3]
+        if not (len(b) == 3 and b[0] == "self" and b[1] == "."):
+            self.err(f"datatype.rs: accessor {T}::{m} is not of the form `&self.field`: `{wr_body_text(dt, rec)}`")
+        fty = self.field_ty(T, b[2])
+        if fty != rty:
+            self.err(f"datatype.rs: accessor {T}::{m}: declared type {rty!r}, field type {fty!r}")
+        return WV(f"{r.lean}.{wr_mangle(b[2])}", fty, r.ex)
+
+    def field_ty(self, T, f):
+        if T not in self.gen or self.gen[T][0] != "struct":
+            self.err(f"field access `.{f}` on {T}, whose fields are not known to the translator")
+        for g, t in self.gen[T][1]:
+            if g == f:
+                return t
+        self.err(f"{T} has no field `{f}`")
+
+    # ---------------------------------------------------------------- calls of translated functions
+    def call_fn(self, key, args_lean, args_ex):
+        """-> (lean, ex, ret type) for a call of a translated (or deliberately untranslated) component function"""
+        if key in self.fns:
+            f = self.fns[key]
+            extra = list(f["extra"])
+            for x, t in f["extra_types"]:
+                self.extra.setdefault(x, t)
+            al = " ".join(extra + args_lean)
+            lean = f"{f['lean']} {al}".strip()
+            ex = wr_and(*args_ex, f"{f['lean']}_exact {al}".strip() if f["has_ex"] else None)
+            return lean, ex, f["ret"]
+        if key in WR_UNTRANSLATED:
+            owner, name = key
+            if owner is None:
+                ptys, rty = self.free_sig(name)
+                p = name
+                dom = " → ".join(self.lty(t) for t in ptys)
+            else:
+                p = f"{owner}_{name}"
+                rty = {"write": "writes", "count_bits": "usize"}[name]
+                dom = self.lty(("st", owner))
+            self.extra.setdefault(p, f"{dom} → {self.lty(rty)}")
+            self.extra.setdefault(p + "_exact", f"{dom} → Bool")
+            return f"{p} {' '.join(args_lean)}", wr_and(*args_ex, f"{p}_exact {' '.join(args_lean)}"), rty
+        self.err(f"call of `{key[0] or ''}::{key[1]}`, which is not (yet) translated")
+
+    def free_sig(self, name):
+        """parameter and return types of a free function of bitrepr.rs, read from its signature"""
+        rec = self.files["bitrepr.rs"].fns.get(name)
+        if rec is None:
+            self.err(f"bitrepr.rs: fn {name} not found")
+        ptys = []
+        for p in rec["params"]:
+            if len(p) < 3 or p[1] != ":":
+                self.err(f"fn {name}: parameter `{' '.join(p)}`")
+            ptys.append(self.ty(p[2:]))
+        return ptys, self.ty(rec["ret"])
+
+    # ---------------------------------------------------------------- expressions
+    def fits(self, v, ty, what):
+        if wr_is_u(ty) and not (0 <= v < 2 ** HDR_BITS[ty]):
+            self.err(f"{what}: literal {v} does not fit {ty}")
+        if wr_is_s(ty) and not (-2 ** (WR_SBITS[ty] - 1) <= v < 2 ** (WR_SBITS[ty] - 1)):
+            self.err(f"{what}: literal {v} does not fit {ty}")
+
+    def as_bool(self, v):
+        """Lean Bool text of a Rust bool value (kept as a decidable proposition)"""
+        if v.ty != "bool":
+            self.err("boolean expected")
+        return f"decide {wr_par(v.lean)}"
+
+    def tx(self, e, env, want=None):
+        k = e[0]
+        if k == "paren":
+            return self.tx(e[1], env, want)
+        if k == "int":
+            v, suf = e[1], e[2]
+            ty = suf if suf is not None else (want if (wr_is_u(want) or wr_is_s(want)) else None)
+            if ty is not None:
+                self.fits(v, ty, "literal")
+            return WV(str(v), ty, None, v)
+        if k == "boollit":
+            return WV("True" if e[1] else "False", "bool")
+        if k == "var":
+            name = e[1]
+            if name == "self" and "self" in env:
+                x = env["self"]
+                return WV(x.lean, x.ty, None, None, x.view)
+            if name in env:
+                x = env[name]
+                if x is None:
+                    self.err(f"`{name}` is used after the counting loop that advances it")
+                lit = x.lit
+                ty = x.ty
+                if ty is None and x.view is None and (wr_is_u(want) or wr_is_s(want)):
+                    # a local initialised with an untyped literal: Rust infers its type from its uses
+                    if lit is not None:
+                        self.fits(lit, want, f"`{name}`")
+                    ty = want
+                return WV(x.lean, ty, None, lit, x.view)
+            if name in self.consts:
+                v, ty = self.consts[name]
+                if name not in self.used_consts:
+                    self.used_consts.append(name)
+                return WV(name, ty, None, v)
+            self.err(f"unknown name `{name}`")
+        if k == "path":
+            segs = e[1]
+            if len(segs) == 2 and segs[0] in HDR_BITS and segs[1] == "BITS":
+                return WV(str(HDR_BITS[segs[0]]), "u32", None, HDR_BITS[segs[0]])
+            self.err(f"path `{'::'.join(segs)}`")
+        if k == "un":
+            if e[1] in ("*", "&"):
+                return self.tx(e[2], env, want)     # references are transparent
+            if e[1] == "!":
+                inner = self.tx(e[2], env)
+                if inner.ty != "bool":
+                    self.err("`!` on a non-boolean")
+                return WV(f"(¬ {inner.lean})", "bool", inner.ex)
+            if e[1] == "-":
+                inner = self.tx(e[2], env, want)
+                if inner.ty is None and inner.lit is not None:
+                    return WV(f"(-{inner.lean})", None, inner.ex, -inner.lit)
+                if not wr_is_s(inner.ty):
+                    self.err("unary `-` on a value that is not a signed integer")
+                w = WR_SBITS[inner.ty]
+                return WV(f"(-{inner.lean})", inner.ty, wr_and(inner.ex, f"decide ({inner.lean} ≠ -{2 ** (w - 1)})"))
+            self.err(f"unary `{e[1]}`")
+        if k == "cast":
+            return self.tx_cast(e, env)
+        if k == "bin":
+            return self.tx_bin(e, env, want)
+        if k == "call":
+            return self.tx_call(e, env, want)
+        if k == "mcall":
+            return self.tx_mcall(e, env, want)
+        if k == "field":
+            r = self.tx(e[1], env)
+            if not (isinstance(r.ty, tuple) and r.ty[0] == "st"):
+                self.err(f"field access `.{e[2]}` on {r.ty!r}")
+            fty = self.field_ty(r.ty[1], e[2])
+            return WV(f"{r.lean}.{wr_mangle(e[2])}", fty, r.ex)
+        if k == "index":
+            r = self.tx(e[1], env)
+            i = self.tx(e[2], env, "usize")
+            if not (isinstance(r.ty, tuple) and r.ty[0] == "list"):
+                self.err(f"indexing a value of type {r.ty!r}")
+            if i.ty is None and i.lit is not None:
+                self.fits(i.lit, "usize", "index")
+            elif i.ty not in ("usize", None):
+                self.err(f"index of type {i.ty!r}")
+            return WV(f"({r.lean}.getD {wr_par(i.lean)} {self.default(r.ty[1])})", r.ty[1],
+                      wr_and(r.ex, i.ex, f"decide ({i.lean} < {r.lean}.length)"))
+        if k == "tuple":
+            wants = want[1] if isinstance(want, tuple) and want[0] == "tuple" and len(want[1]) == len(e[1]) else [None] * len(e[1])
+            xs = [self.tx(a, env, w) for a, w in zip(e[1], wants)]
+            return WV("(" + ", ".join(x.lean for x in xs) + ")", ("tuple", tuple(x.ty for x in xs)), wr_and(*[x.ex for x in xs]),
+                      tuple(x.lit for x in xs))
+        if k == "array":
+            xs = [self.tx(a, env, "u8" if want == ("list", "u8") else None) for a in e[1]]
+            tys = {x.ty for x in xs if x.ty is not None}
+            if len(tys) > 1:
+                self.err("array literal with elements of different types")
+            ety = tys.pop() if tys else None
+            for x in xs:
+                if x.ty is None:
+                    if x.lit is None:
+                        self.err("array literal: untyped element")
+                    if ety is not None:
+                        self.fits(x.lit, ety, "array literal")
+            return WV("[" + ", ".join(x.lean for x in xs) + "]", ("list", ety), wr_and(*[x.ex for x in xs]),
+                      tuple(x.lit for x in xs))
+        if k == "if":
+            return self.tx_if(e, env, want)
+        if k == "match":
+            return self.tx_match(e, env, want)
+        if k == "block":
+            return self.tx_block(e, env, want)
+        if k == "try":
+            self.err("`?` in an unsupported position")
+        if k in ("macro", "reuse", "tryrepeat", "assert"):
+            self.err(f"macro `{e[1] if k == 'macro' else k}` in an unsupported position")
+        self.err(f"expression kind `{k}`")
+
+    def tx_block(self, e, env, want):
+        if not e[1]:
+            if e[2] is None:
+                self.err("empty block used as a value")
+            return self.tx(e[2], env, want)
+        kv, ke = WrK("P", "V", want=want), WrK("P", "E", want=want)
+        v = self.walk(e[1], 0, e[2], dict(env), kv)
+        x = self.walk(e[1], 0, e[2], dict(env), ke)
+        return WV(wr_par(v), kv.result_ty, None if x == "true" else wr_par(x))
+
+    def tx_if(self, e, env, want):
+        rows = []
+        ty = "any"
+        cur = e
+        while True:
+            c = self.tx(cur[1], env)
+            if c.ty != "bool":
+                self.err("`if` condition is not a boolean")
+            if c.ex is not None:
+                self.err("`if` condition with arithmetic that may overflow")
+            v = self.tx(cur[2], env, want)
+            rows.append((c.lean, v))
+            if cur[3] is None:
+                self.err("`if` without `else` used as a value")
+            if cur[3][0] == "if":
+                cur = cur[3]
+                continue
+            if cur[3][0] != "block":
+                self.err("`else` branch")
+            rows.append((None, self.tx(cur[3], env, want)))
+            break
+        ty = self.unify_all([v.ty for _, v in rows], [v.lit for _, v in rows], "if")
+        lean = " else ".join((f"if {c} then {wr_par(v.lean)}" if c is not None else wr_par(v.lean)) for c, v in rows)
+        ex = None
+        if any(v.ex is not None for _, v in rows):
+            ex = "(" + " else ".join((f"if {c} then {v.ex or 'true'}" if c is not None else (v.ex or "true")) for c, v in rows) + ")"
+        return WV(f"({lean})", ty, ex)
+
+    def unify_all(self, tys, lits, what):
+        known = [t for t in tys if t is not None]
+        if not known:
+            return None
+        t0 = known[0]
+        if isinstance(t0, tuple) and t0[0] == "tuple":
+            if any(not (isinstance(t, tuple) and t[0] == "tuple" and len(t[1]) == len(t0[1])) for t in known):
+                self.err(f"{what}: branches of different types")
+            comps = []
+            for j in range(len(t0[1])):
+                comps.append(self.unify_all([t[1][j] for t in known], [(l[j] if isinstance(l, tuple) else None) for l, t in zip(lits, tys) if t is not None], what))
+            return ("tuple", tuple(comps))
+        for t, l in zip(tys, lits):
+            if t is None:
+                if l is None or isinstance(l, tuple):
+                    self.err(f"{what}: branch of unknown type")
+                self.fits(l, t0, what)
+            elif t != t0:
+                self.err(f"{what}: branches of different types {t0!r} / {t!r}")
+        return t0
+
+    def tx_cast(self, e, env):
+        inner = self.tx(e[1], env)
+        T = e[2]
+        w = HDR_BITS[T]     # the parser only accepts casts to unsigned types
+        if inner.ty is None:
+            if inner.lit is None:
+                self.err("cast of an expression of unknown integer type")
+            self.fits(inner.lit, T, "cast")
+            return WV(inner.lean, T, inner.ex, inner.lit)
+        if wr_is_u(inner.ty):
+            if HDR_BITS[inner.ty] > w:
+                return WV(f"({inner.lean} % {2 ** w})", T, inner.ex)     # `as` truncates silently
+            return WV(inner.lean, T, inner.ex, inner.lit)
+        if wr_is_s(inner.ty):
+            return WV(f"(({inner.lean} % {2 ** w}).toNat)", T, inner.ex)   # two's complement reinterpretation
+        if inner.ty == "bool":
+            return WV(f"(if {inner.lean} then 1 else 0)", T, inner.ex)
+        self.err(f"cast from {inner.ty!r}")
+
+    def tx_bin(self, e, env, want):
+        op = e[1]
+        if op in ("&&", "||"):
+            l, r = self.tx(e[2], env), self.tx(e[3], env)
+            if l.ty != "bool" or r.ty != "bool":
+                self.err(f"`{op}` on non-booleans")
+            if r.ex is not None:
+                self.err(f"arithmetic that may overflow on the right of `{op}`")
+            return WV(f"({l.lean} {'∧' if op == '&&' else '∨'} {r.lean})", "bool", l.ex)
+        cmp_ = op in ("==", "!=", "<", ">", "<=", ">=")
+        shift = op in ("<<", ">>")
+        l = self.tx(e[2], env, None if cmp_ else want)
+        lw = l.ty if (wr_is_u(l.ty) or wr_is_s(l.ty)) else None
+        r = self.tx(e[3], env, None if shift else (lw or (None if cmp_ else want)))
+        if l.ty is None and (wr_is_u(r.ty) or wr_is_s(r.ty)) and not shift:
+            l = self.tx(e[2], env, r.ty)
+        if cmp_ and op in ("==", "!=") and l.ty == "bool" and r.ty == "bool":
+            return WV(f"({l.lean} {'↔' if op == '==' else '≠'} {r.lean})", "bool", wr_and(l.ex, r.ex))
+        for z in (l, r):
+            if not (z.ty is None or wr_is_u(z.ty) or wr_is_s(z.ty)):
+                self.err(f"operand of `{op}` is not an integer ({z.ty!r})")
+        if shift:
+            ty = l.ty if l.ty is not None else (want if (wr_is_u(want) or wr_is_s(want)) else None)
+            if r.ty is None and r.lit is None:
+                self.err("shift amount of unknown type")
+            if wr_is_s(r.ty):
+                self.err("signed shift amount")
+        else:
+            if l.ty is None and r.ty is None:
+                ty = None if cmp_ else (want if (wr_is_u(want) or wr_is_s(want)) else None)
+            elif l.ty is None:
+                ty = r.ty
+            elif r.ty is None:
+                ty = l.ty
+            elif l.ty != r.ty:
+                self.err(f"`{op}` on different integer types {l.ty} / {r.ty}")
+            else:
+                ty = l.ty
+            for z in (l, r):
+                if z.ty is None and ty is not None and z.lit is not None:
+                    self.fits(z.lit, ty, f"operand of `{op}`")
+        ex = wr_and(l.ex, r.ex)
+        if cmp_:
+            sym = {"==": "=", "!=": "≠", "<": "<", ">": ">", "<=": "≤", ">=": "≥"}[op]
+            if (wr_is_s(l.ty) or wr_is_s(r.ty)):
+                return WV(f"(({l.lean} : Int) {sym} {r.lean})", "bool", ex)
+            return WV(f"({l.lean} {sym} {r.lean})", "bool", ex)
+        if ty is None:
+            if l.lit is not None and r.lit is not None and op in ("+", "-", "*"):
+                v = {"+": l.lit + r.lit, "-": l.lit - r.lit, "*": l.lit * r.lit}[op]
+                return WV(f"({l.lean} {op} {r.lean})", None, ex, v)
+            self.err(f"cannot infer the integer type of `{l.lean} {op} {r.lean}`")
+        w = wr_bits(ty)
+        if l.ty is None and l.lit is not None:
+            self.fits(l.lit, ty, f"operand of `{op}`")
+        if wr_is_s(ty):
+            lo, hi = f"-{2 ** (w - 1)}", f"{2 ** (w - 1)}"
+            rng = lambda t: f"decide (({lo} : Int) ≤ {t} ∧ {t} < ({hi} : Int))"
+            if op in ("+", "-", "*"):
+                t = f"(({l.lean} : Int) {op} {r.lean})"
+                return WV(t, ty, wr_and(ex, rng(t)))
+            if op == "<<":
+                # bits shifted out are lost silently; only a shift amount >= the width panics
+                return WV(f"(Int.bmod (({l.lean} : Int) * 2 ^ {wr_par(r.lean)}) {2 ** w})", ty, wr_and(ex, f"decide ({r.lean} < {w})"))
+            self.err(f"operator `{op}` on signed integers")
+        if op == "+":
+            return WV(f"({l.lean} + {r.lean})", ty, wr_and(ex, f"decide ({l.lean} + {r.lean} < {2 ** w})"))
+        if op == "-":
+            return WV(f"({l.lean} - {r.lean})", ty, wr_and(ex, f"decide ({r.lean} ≤ {l.lean})"))
+        if op == "*":
+            return WV(f"({l.lean} * {r.lean})", ty, wr_and(ex, f"decide ({l.lean} * {r.lean} < {2 ** w})"))
+        if op in ("/", "%"):
+            if r.lit is not None:
+                if r.lit == 0:
+                    self.err("division by the literal 0")
+                c = None
+            else:
+                c = f"decide ({r.lean} ≠ 0)"
+            return WV(f"({l.lean} {op} {r.lean})", ty, wr_and(ex, c))
+        if op == "<<":
+            # Rust: bits shifted out are lost silently (no panic); a shift amount >= the width panics
+            c = None if (r.lit is not None and r.lit < w) else f"decide ({r.lean} < {w})"
+            return WV(f"(({l.lean} <<< {r.lean}) % {2 ** w})", ty, wr_and(ex, c))
+        if op == ">>":
+            c = None if (r.lit is not None and r.lit < w) else f"decide ({r.lean} < {w})"
+            return WV(f"({l.lean} >>> {r.lean})", ty, wr_and(ex, c))
+        if op in ("|", "&", "^"):
+            sym = {"|": "|||", "&": "&&&", "^": "^^^"}[op]
+            return WV(f"({l.lean} {sym} {r.lean})", ty, ex)
+        self.err(f"operator `{op}`")
+
+    def typed_args(self, args, ptys, env, what):
+        if len(args) != len(ptys):
+            self.err(f"{what}: arity")
+        outs = []
+        for a, pt in zip(args, ptys):
+            if a[0] == "mcall" and a[2] == "into" and not a[3] and wr_is_u(pt):
+                x = self.tx(a[1], env)      # lossless widening `From`
+                if not wr_is_u(x.ty) or HDR_BITS[x.ty] > HDR_BITS[pt]:
+                    self.err(f"{what}: `.into()` from {x.ty!r} to {pt}")
+                x = WV(x.lean, pt, x.ex, x.lit)
+            else:
+                x = self.tx(a, env, pt)
+            if x.ty is None and x.lit is not None and not isinstance(x.lit, tuple):
+                self.fits(x.lit, pt, what)
+            elif x.ty != pt:
+                self.err(f"{what}: argument of type {x.ty!r}, parameter is {pt!r}")
+            outs.append(x)
+        return outs
+
+    def tx_call(self, e, env, want):
+        callee, args = e[1], e[2]
+        if callee[0] == "var" and callee[1] in ("max", "min") and len(args) == 2 and callee[1] in self.use_max \
+                and callee[1] not in env:
+            a = self.tx(args[0], env, want)
+            b = self.tx(args[1], env, a.ty if a.ty is not None else want)
+            if a.ty is None and b.ty is not None:
+                a = self.tx(args[0], env, b.ty)
+            if a.ty != b.ty or not wr_is_u(a.ty):
+                self.err(f"{callee[1]}: arguments of types {a.ty!r} / {b.ty!r}")
+            return WV(f"(Nat.{callee[1]} {wr_par(a.lean)} {wr_par(b.lean)})", a.ty, wr_and(a.ex, b.ex))
+        key = None
+        if callee[0] == "var" and (None, callee[1]) in self.fns:
+            key = (None, callee[1])
+        elif callee[0] == "path" and len(callee[1]) == 2:
+            o = self.owner if callee[1][0] == "Self" else callee[1][0]
+            if (o, callee[1][1]) in self.fns:
+                key = (o, callee[1][1])
+        if key is not None:
+            f = self.fns[key]
+            if f["self_kind"] is not None:
+                self.err(f"`{'::'.join(callee[1])}` called as a plain function but takes `self`")
+            outs = self.typed_args(args, f["ptys"], env, f["lean"])
+            lean, ex, rty = self.call_fn(key, [wr_par(x.lean) for x in outs], [x.ex for x in outs])
+            return WV(f"({lean})", rty, ex)
+        if callee[0] == "var" and (None, callee[1]) in WR_UNTRANSLATED and callee[1] not in env:
+            ptys, rty = self.free_sig(callee[1])
+            outs = self.typed_args(args, ptys, env, callee[1])
+            lean, ex, rty = self.call_fn((None, callee[1]), [wr_par(x.lean) for x in outs], [x.ex for x in outs])
+            return WV(f"({lean})", rty, ex)
+        if callee[0] == "path" and len(callee[1]) == 2 and callee[1][0] in HDR_BITS and callee[1][1] == "from" and len(args) == 1:
+            a = self.tx(args[0], env)
+            T = callee[1][0]
+            if a.ty == "bool":
+                return WV(f"(if {a.lean} then 1 else 0)", T, a.ex)
+            if wr_is_u(a.ty) and HDR_BITS[a.ty] <= HDR_BITS[T]:
+                return WV(a.lean, T, a.ex, a.lit)
+            self.err(f"{T}::from of {a.ty!r}")
+        nm = "::".join(callee[1]) if callee[0] == "path" else callee[1] if callee[0] == "var" else callee[0]
+        self.err(f"call of `{nm}`")
+
+    def tx_mcall(self, e, env, want):
+        recv, name, args = e[1], e[2], e[3]
+        gen = e[4] if len(e) > 4 else None
+        if gen is not None:
+            self.err(f"generic arguments on `.{name}`")
+        # `.iter().map(Trait::f).sum()`
+        if name == "sum" and not args and recv[0] == "mcall" and recv[2] == "map" and len(recv[3]) == 1 \
+                and recv[1][0] == "mcall" and recv[1][2] == "iter" and not recv[1][3]:
+            xs = self.tx(recv[1][1], env)
+            f = recv[3][0]
+            if not (isinstance(xs.ty, tuple) and xs.ty[0] == "list" and isinstance(xs.ty[1], tuple) and xs.ty[1][0] == "st"):
+                self.err(".iter().map(..).sum() on something that is not a list of components")
+            if not (f[0] == "path" and len(f[1]) == 2 and f[1][0] == "BitRepr" and (xs.ty[1][1], f[1][1]) in self.fns):
+                self.err(".map with something other than a translated `BitRepr::` function")
+            cal = self.fns[(xs.ty[1][1], f[1][1])]
+            if cal["extra"] or not wr_is_u(cal["ret"]) or cal["self_kind"] == "ctor":
+                self.err(".map(..).sum(): callee")
+            if want is None:
+                self.err(".sum() whose result type is not annotated")
+            if want != cal["ret"]:
+                self.err(f".sum() of {cal['ret']} into {want!r}")
+            lean = f"(({xs.lean}.map {cal['lean']}).foldl (· + ·) 0)"
+            ex = wr_and(xs.ex, f"{xs.lean}.all {cal['lean']}_exact" if cal["has_ex"] else None,
+                        f"decide ({lean} < {2 ** HDR_BITS[want]})")
+            return WV(lean, want, ex)
+        if name == "checksum" and len(args) == 1 and recv[0] == "var" and recv[1] not in env and recv[1] in self.statics:
+            w = self.statics[recv[1]]
+            a = self.tx(args[0], env)
+            if a.ty != ("list", "u8"):
+                self.err(f"{recv[1]}.checksum of a {a.ty!r}")
+            p_ = f"{recv[1]}_checksum"
+            self.extra.setdefault(p_, "List Nat → Nat")
+            return WV(f"({p_} {wr_par(a.lean)})", w, a.ex)
+        r = self.tx(recv, env)
+        if r.ty == "scratch":
+            if name == "as_slice" and not args and self.scratch_ty == "MemSink<u8>":
+                self.extra.setdefault("ByteSink_as_slice", "List Op → List Nat")
+                return WV(f"(ByteSink_as_slice {r.lean})", ("list", "u8"))
+            if name == "len" and not args:
+                self.extra.setdefault("MemSink_len", "List Op → Nat")
+                return WV(f"(MemSink_len {r.lean})", "usize")
+            self.err(f"`.{name}(..)` on the scratch sink after it was filled")
+        if isinstance(r.ty, tuple) and r.ty[0] == "st":
+            T = r.ty[1]
+            if (T, name) in self.fns or (T, name) in WR_UNTRANSLATED:
+                f = self.fns.get((T, name))
+                if f is not None and f["ret"] == "writes":
+                    self.err(f"`{T}::{name}` writes to a sink: not a value")
+                if (T, name) in WR_UNTRANSLATED and name == "write":
+                    self.err(f"`{T}::{name}` writes to a sink: not a value")
+                outs = self.typed_args(args, f["ptys"] if f else [], env, f"{T}::{name}")
+                lean, ex, rty = self.call_fn((T, name), [self.call_args(r)] + [wr_par(x.lean) for x in outs], [r.ex] + [x.ex for x in outs])
+                return WV(f"({lean})", rty, ex)
+            return self.accessor(r, name, args)
+        if isinstance(r.ty, tuple) and r.ty[0] == "hdr":
+            ln = f"{r.ty[1]}.{name}"
+            if ln not in self.hdr:
+                self.err(f"`{r.ty[1]}::{name}` is not among the functions translated by part `headers`")
+            ptys, rty, has_ex = self.hdr[ln]
+            if rty == "writes":
+                self.err(f"`{r.ty[1]}::{name}` writes to a sink: not a value")
+            if isinstance(rty, tuple):
+                self.err(f"`{r.ty[1]}::{name}`: return type {rty!r}")
+            outs = self.typed_args(args, ptys, env, ln)
+            al = " ".join([wr_par(r.lean)] + [wr_par(x.lean) for x in outs])
+            return WV(f"(FlacVerif.Gen.Headers.{ln} {al})", rty,
+                      wr_and(r.ex, *[x.ex for x in outs], f"FlacVerif.Gen.Headers.{ln}_exact {al}" if has_ex else None))
+        if isinstance(r.ty, tuple) and r.ty[0] == "list":
+            if name == "len" and not args:
+                return WV(f"{wr_par(r.lean)}.length", "usize", r.ex)
+            if name in ("iter", "as_slice", "to_vec", "clone") and not args:
+                return r
+        if isinstance(r.ty, tuple) and r.ty[0] == "opt":
+            if name == "as_ref" and not args:
+                return r
+            if name == "map_or_else" and len(args) == 2 and args[0][0] == "closure" and args[1][0] == "closure" \
+                    and len(args[0][1]) == 0 and len(args[1][1]) == 1:
+                a = self.tx(args[0][2], env, want)
+                b_name = args[1][1][0]
+                b_name = b_name[0] if isinstance(b_name, tuple) else b_name
+                env2 = dict(env)
+                env2[b_name] = WrVar(wr_mangle(b_name), r.ty[1])
+                b = self.tx(args[1][2], env2, want if want is not None else a.ty)
+                ty = self.unify_all([a.ty, b.ty], [a.lit, b.lit], "map_or_else")
+                lean = f"(match {r.lean} with\n  | none => {wr_ind(a.lean, 4).lstrip()}\n  | some {wr_mangle(b_name)} => {wr_ind(b.lean, 4).lstrip()})"
+                ex = None
+                if a.ex is not None or b.ex is not None:
+                    ex = f"(match {r.lean} with\n  | none => {wr_ind(a.ex or 'true', 4).lstrip()}\n  | some {wr_mangle(b_name)} => {wr_ind(b.ex or 'true', 4).lstrip()})"
+                return WV(lean, ty, wr_and(r.ex, ex))
+        if wr_is_u(r.ty) and name == "leading_zeros" and not args:
+            return WV(f"(FlacVerif.Gen.Headers.leadingZeros {HDR_BITS[r.ty]} {wr_par(r.lean)})", "u32", r.ex)
+        self.err(f"method `.{name}(..)` on a value of type {r.ty!r}")
+
+    # ---------------------------------------------------------------- patterns on component enums
+    def enum_arms(self, scrut, arms, env):
+        """-> [(lean pattern, env of the arm, body)] for a match on a model / generated enum; arms stay in source order"""
+        s = scrut
+        while s[0] == "paren" or (s[0] == "un" and s[1] in ("*", "&")):
+            s = s[1] if s[0] == "paren" else s[2]
+        if s[0] != "var":
+            self.err("match scrutinee is not a variable")
+        sv = self.tx(s, env)
+        if not (isinstance(sv.ty, tuple) and sv.ty[0] == "st"):
+            self.err(f"match on a value of type {sv.ty!r}")
+        T = sv.ty[1]
+        out = []
+        seen = set()
+        total = False
+        if T in WR_MODEL and WR_MODEL[T]["kind"] == "enum":
+            variants = WR_MODEL[T]["variants"]
+            raw = self.gen_raw.get(T)
+            if raw is None or raw[0] != "enum":
+                self.err(f"datatype.rs: enum {T} not found")
+            declared = {v: (vk, payload) for v, vk, payload in raw[1]}
+            if set(declared) != set(variants):
+                self.err(f"datatype.rs: enum {T} has the variants {sorted(declared)}, the model view knows {sorted(variants)}")
+            for v, (vk, payload) in declared.items():
+                if vk != "tuple" or len(payload) != 1 or "".join(payload[0]) != variants[v]:
+                    self.err(f"datatype.rs: variant {T}::{v} does not hold exactly one {variants[v]}")
+        elif T in self.gen and self.gen[T][0] == "enum":
+            variants = {v: (vk, fields) for v, vk, fields in self.gen[T][1]}
+        else:
+            self.err(f"match on {T}, which is not an enum known to the translator")
+        for alts, guard, body in arms:
+            if guard is not None:
+                self.err("guard in a match on a component enum")
+            if len(alts) != 1:
+                self.err("or-pattern in a match on a component enum")
+            if total:
+                self.err("match arm after a wildcard arm")
+            a = alts[0]
+            env2 = dict(env)
+            if a[0] == "wild":
+                out.append(("_", env2, body))
+                total = True
+                continue
+            if a[0] not in ("variant", "svariant"):
+                self.err("pattern in a match on a component enum is neither a variant nor `_`")
+            segs = a[1]
+            if len(segs) != 2 or (segs[0] != "Self" and segs[0] != T) or (segs[0] == "Self" and self.owner != T):
+                self.err(f"pattern `{'::'.join(segs)}` in a match on {T}")
+            v = segs[1]
+            if v not in variants:
+                self.err(f"{T} has no variant {v}")
+            if v in seen:
+                self.err(f"variant {v} matched twice")
+            seen.add(v)
+            if T in WR_MODEL:
+                C = variants[v]
+                info = WR_MODEL[C]
+                if a[0] != "variant" or len(a[2]) != 1:
+                    self.err(f"pattern of {T}::{v}")
+                binders = [f for f, _ in info["fields"]]
+                if a[2][0][0] == "bind":
+                    env2[a[2][0][1]] = WrVar(None, ("st", C), view={f: f for f in binders})
+                    for f in binders:
+                        env2.pop(f, None)
+                out.append((f".{info['ctor']} " + " ".join(binders), env2, body))
+            else:
+                vk, fields = variants[v]
+                pats = ["_"] * len(fields)
+                if a[0] == "variant":
+                    if vk == "struct" or len(a[2]) != len(fields):
+                        self.err(f"pattern of {T}::{v}")
+                    for j, sp in enumerate(a[2]):
+                        if sp[0] == "bind":
+                            pats[j] = wr_mangle(sp[1])
+                            env2[sp[1]] = WrVar(pats[j], fields[j][1])
+                else:
+                    if vk != "struct":
+                        self.err(f"struct pattern on the tuple variant {T}::{v}")
+                    names = [f for f, _ in fields]
+                    for f, b in a[2]:
+                        if f not in names:
+                            self.err(f"{T}::{v} has no field {f}")
+                        if b != "_":
+                            pats[names.index(f)] = wr_mangle(b)
+                            env2[b] = WrVar(wr_mangle(b), fields[names.index(f)][1])
+                    if not a[3] and len(a[2]) != len(fields):
+                        self.err(f"pattern of {T}::{v} does not mention all fields")
+                out.append((f".{v} " + " ".join(pats), env2, body))
+        if not total and seen != set(variants):
+            self.err(f"match on {T} does not cover {sorted(set(variants) - seen)}")
+        return sv, out
+
+    def tx_match(self, e, env, want):
+        sv, arms = self.enum_arms(e[1], e[2], env)
+        rows = []
+        for pat, env2, body in arms:
+            rows.append((pat, self.tx(body, env2, want)))
+        ty = self.unify_all([v.ty for _, v in rows], [v.lit for _, v in rows], "match")
+        lean = f"(match {sv.lean} with\n" + "\n".join(f"  | {p.strip()} => {wr_ind(v.lean, 4).lstrip()}" for p, v in rows) + ")"
+        ex = None
+        if any(v.ex is not None for _, v in rows):
+            ex = f"(match {sv.lean} with\n" + "\n".join(f"  | {p.strip()} => {wr_ind(v.ex or 'true', 4).lstrip()}" for p, v in rows) + ")"
+        return WV(lean, ty, ex)
+
+    # ---------------------------------------------------------------- statements
+    def assigned(self, node, local):
+        """names assigned inside `node` that are not declared inside it (in order of first assignment)"""
+        out = []
+
+        def add(n):
+            if n not in local and n not in out:
+                out.append(n)
+
+        def blk(b, loc):
+            loc = set(loc)
+            for st in b[1]:
+                stmt(st, loc)
+            if b[2] is not None:
+                stmt(b[2], loc)
+
+        def stmt(st, loc):
+            k = st[0]
+            if k == "let":
+                expr(st[3], loc)
+                pat = st[1]
+                if pat[0] == "bind":
+                    loc.add(pat[1])
+                else:
+                    for n, _ in pat[1]:
+                        loc.add(n)
+            elif k == "assign":
+                t = st[2]
+                while t[0] in ("paren",) or (t[0] == "un" and t[1] == "*"):
+                    t = t[1] if t[0] == "paren" else t[2]
+                if t[0] != "var":
+                    self.err("assignment to something other than a local variable")
+                if t[1] not in loc:
+                    add(t[1])
+                expr(st[3], loc)
+            else:
+                expr(st, loc)
+
+        def expr(e, loc):
+            if not isinstance(e, tuple) or not e:
+                if isinstance(e, list):
+                    for x in e:
+                        expr(x, loc)
+                return
+            k = e[0]
+            if k == "block":
+                blk(e, loc)
+            elif k == "for":
+                expr(e[2], loc)
+                blk(e[3], set(loc) | {e[1]})
+            elif k == "while":
+                expr(e[1], loc)
+                blk(e[2], loc)
+            elif k == "tryrepeat":
+                expr(e[3], set(loc) | {e[1]})
+                blk(e[4], set(loc) | {e[1]})
+            elif k == "closure":
+                ps = {(p[0] if isinstance(p, tuple) else p) for p in e[1]}
+                expr(e[2], set(loc) | ps)
+            elif k == "match":
+                expr(e[1], loc)
+                for alts, guard, body in e[2]:
+                    expr(body, set(loc))
+            elif k in ("reuse", "macro"):
+                self.err(f"macro `{e[1] if k == 'macro' else 'reuse'}` inside a loop or branch")
+            elif k in ("let", "assign"):
+                stmt(e, loc)
+            else:
+                for x in e[1:]:
+                    if isinstance(x, (tuple, list)):
+                        expr(x, loc)
+
+        expr(node, set(local))
+        return out
+
+    def early_return(self, st):
+        """`if c { return Err(..); }` -> c, else None"""
+        if st[0] == "if" and st[3] is None and st[2][0] == "block":
+            b = st[2]
+            r = None
+            if len(b[1]) == 1 and b[2] is None:
+                r = b[1][0]
+            elif not b[1] and b[2] is not None:
+                r = b[2]
+            if r is not None and r[0] == "return" and r[1] is not None:
+                v = r[1]
+                while v[0] == "paren":
+                    v = v[1]
+                if v[0] == "call" and v[1] == ("var", "Err") and len(v[2]) == 1:
+                    return st[1]
+                self.err("early return of something other than Err(..)")
+        return None
+
+    def strip_conv(self, e):
+        """drop error-type conversions `.map_err(<path>)`"""
+        while e[0] == "mcall" and e[2] == "map_err" and len(e[3]) == 1 and e[3][0][0] == "path":
+            e = e[1]
+        return e
+
+    def sink_op(self, e, env, sink):
+        """`dest.<op>(args)` -> (Op text, exactness) or None"""
+        if not (e[0] == "mcall" and e[1] == ("var", sink) and e[2] in WR_SINK_OPS):
+            return None
+        ctor, shape = WR_SINK_OPS[e[2]]
+        args = e[3]
+        gen = e[4] if len(e) > 4 else None
+        if len(args) != len(shape):
+            self.err(f"{sink}.{e[2]}: {len(args)} arguments")
+        parts = []
+        exs = []
+        width = None
+        for a, sh in zip(args, shape):
+            if sh == "wv":
+                v = self.tx(a, env)
+                if not wr_is_u(v.ty) or v.ty == "usize":
+                    self.err(f"{sink}.{e[2]}: value of type {v.ty!r} (an unsigned integer type of known width is needed)")
+                width = HDR_BITS[v.ty]
+                if gen is not None and "".join(gen) != v.ty:
+                    self.err(f"{sink}.{e[2]}::<{''.join(gen)}> applied to a {v.ty}")
+                parts += [str(width), wr_par(v.lean)]
+                exs.append(v.ex)
+            elif sh == "sv":
+                v = self.tx(a, env)
+                if not wr_is_s(v.ty):
+                    self.err(f"{sink}.{e[2]}: value of type {v.ty!r} (a signed integer is needed)")
+                parts.append(wr_par(v.lean))
+                exs.append(v.ex)
+            elif sh == "n":
+                n = self.tx(a, env, "usize")
+                if n.ty is None and n.lit is not None:
+                    self.fits(n.lit, "usize", e[2])
+                elif n.ty != "usize":
+                    self.err(f"{sink}.{e[2]}: bit count of type {n.ty!r}")
+                parts.append(wr_par(n.lean))
+                exs.append(n.ex)
+                if width is not None and not (n.lit is not None and n.lit <= width):
+                    exs.append(f"decide ({n.lean} ≤ {width})")
+            elif sh == "bytes":
+                v = self.tx(a, env, ("list", "u8"))
+                if v.ty == ("list", None) and all(isinstance(x, int) for x in (v.lit or [None])):
+                    for x in v.lit:
+                        self.fits(x, "u8", "byte literal")
+                elif v.ty != ("list", "u8"):
+                    self.err(f"{sink}.{e[2]}: argument of type {v.ty!r}")
+                parts.append(wr_par(v.lean))
+                exs.append(v.ex)
+        if gen is not None and "wv" not in shape:
+            self.err(f"generic arguments on {sink}.{e[2]}")
+        return (ctor + " " + " ".join(parts)).strip(), wr_and(*exs)
+
+    def comp_write(self, e, env, sink):
+        """`<component>.write(dest)` -> (lean, ex) or None"""
+        if not (e[0] == "mcall" and e[2] == "write" and len(e[3]) == 1 and e[3][0] == ("var", sink)):
+            return None
+        if e[1] == ("var", sink):
+            return None
+        r = self.tx(e[1], env)
+        if isinstance(r.ty, tuple) and r.ty[0] == "hdr":
+            return self.hdr_write(r, "write", sink)
+        if isinstance(r.ty, tuple) and r.ty[0] == "st":
+            lean, ex, rty = self.call_fn((r.ty[1], "write"), [self.call_args(r)], [r.ex])
+            if rty != "writes":
+                self.err(f"{r.ty[1]}::write does not return Result<(), _>")
+            return lean, ex
+        self.err(f"`.write({sink})` on a value of type {r.ty!r}")
+
+    def hdr_write(self, r, name, sink):
+        ln = f"{r.ty[1]}.{name}"
+        if ln not in self.hdr or self.hdr[ln][1] != "writes" or self.hdr[ln][0]:
+            self.err(f"`{r.ty[1]}::{name}({sink})` is not a writer function translated by part `headers`")
+        if self.scratch != sink:
+            self.err(f"`{r.ty[1]}::{name}` writing to the caller's sink (part `headers` does not record operand widths)")
+        fq = f"FlacVerif.Gen.Headers.{ln}"
+        return f"hdrOps ({fq} {wr_par(r.lean)})", wr_and(r.ex, f"{fq}_exact {wr_par(r.lean)}" if self.hdr[ln][2] else None)
+
+    def bind(self, env, name, v, mut=False):
+        env[name] = WrVar(wr_mangle(name), v.ty, v.lit if not isinstance(v.lit, tuple) else None, v.view, mut)
+
+    def walk(self, stmts, i, tail, env, K):
+        if i == len(stmts):
+            return self.finish(tail, env, K)
+        st = stmts[i]
+        k = st[0]
+
+        def rest(env2=env):
+            return self.walk(stmts, i + 1, tail, env2, K)
+
+        if k == "let":
+            pat, tytoks, init = st[1], st[2], st[3]
+            want = self.ty(tytoks) if tytoks is not None else None
+            if init[0] == "try":
+                # `let x = f(..)?;` with f returning Result<T, RangeError>: `none` propagates
+                if K.kind != "W" or pat[0] != "bind":
+                    self.err("`let .. = ..?;` outside a function that writes to a sink")
+                v = self.tx(init[1], env)
+                if not (isinstance(v.ty, tuple) and v.ty[0] == "res"):
+                    self.err("`?` on something that is not a Result<T, _> function call")
+                if want is not None and want != v.ty[1]:
+                    self.err(f"`let` declares {want!r}, initialiser has type {v.ty[1]!r}")
+                env2 = dict(env)
+                env2[pat[1]] = WrVar(wr_mangle(pat[1]), v.ty[1], None, None, pat[2])
+                r_ = rest(env2)
+                if K.mode == "E":
+                    if r_ == "true":
+                        return K.cond(v.ex, "true")
+                    return K.cond(v.ex, f"bindOE {wr_par(v.lean)} fun {wr_mangle(pat[1])} =>\n{r_}")
+                return f"bindO {wr_par(v.lean)} fun {wr_mangle(pat[1])} =>\n{r_}"
+            v = self.tx(init, env, want)
+            if want is not None:
+                if v.ty is None and v.lit is not None and not isinstance(v.lit, tuple):
+                    self.fits(v.lit, want, "let")
+                    v.ty = want
+                elif v.ty != want:
+                    self.err(f"`let` declares {want!r}, initialiser has type {v.ty!r}")
+            env2 = dict(env)
+            if pat[0] == "bind":
+                if v.lean is None:      # a component view: an alias, no Lean binding
+                    self.bind(env2, pat[1], v, pat[2])
+                    env2[pat[1]].lean = None
+                    return K.cond(v.ex, rest(env2))
+                self.bind(env2, pat[1], v, pat[2])
+                names = [wr_mangle(pat[1])]
+                lp = names[0]
+            else:
+                if not (isinstance(v.ty, tuple) and v.ty[0] == "tuple" and len(v.ty[1]) == len(pat[1])):
+                    self.err("tuple pattern on a value that is not a tuple of that size")
+                names = []
+                for (n, m), t in zip(pat[1], v.ty[1]):
+                    env2[n] = WrVar(wr_mangle(n), t, None, None, m)
+                    names.append(wr_mangle(n))
+                lp = "(" + ", ".join(names) + ")"
+            return K.cond(v.ex, K.let(lp, v.lean, rest(env2), names))
+        if k == "assign":
+            op, lhs, rhs = st[1], st[2], st[3]
+            t = lhs
+            while t[0] == "paren" or (t[0] == "un" and t[1] == "*"):
+                t = t[1] if t[0] == "paren" else t[2]
+            if t[0] != "var" or t[1] not in env or env[t[1]] is None or not env[t[1]].mut:
+                self.err("assignment to something that is not a `let mut` local")
+            name = t[1]
+            if op == "=":
+                v = self.tx(rhs, env, env[name].ty)
+            else:
+                v = self.tx(("bin", op[:-1], ("var", name), rhs), env, env[name].ty)
+            if env[name].ty is not None and v.ty is not None and v.ty != env[name].ty:
+                self.err(f"assignment of a {v.ty!r} to `{name}` of type {env[name].ty!r}")
+            env2 = dict(env)
+            env2[name] = WrVar(wr_mangle(name), v.ty if v.ty is not None else env[name].ty, None, None, True)
+            return K.cond(v.ex, K.let(wr_mangle(name), v.lean, rest(env2), [wr_mangle(name)]))
+        if k == "assert":
+            c = self.tx(st[1], env)
+            if c.ty != "bool":
+                self.err("assertion on a non-boolean")
+            return K.cond(wr_and(c.ex, f"decide {wr_par(c.lean)}"), rest())
+        if k == "for":
+            return self.st_for(st, env, K, rest)
+        if k == "while":
+            return self.st_while(st, env, K, rest)
+        if K.kind in ("P", "L"):
+            if k == "if":
+                return self.st_if_pure(st, env, K, rest)
+            self.err(f"statement of kind `{k}` in a function without a sink")
+        # ---- statements of a function that writes to a sink
+        sink = self.sink
+        c = self.early_return(st)
+        if c is not None:
+            cv = self.tx(c, env)
+            if cv.ty != "bool":
+                self.err("early-return condition")
+            return K.cond(cv.ex, K.errif(cv.lean, rest()))
+        if k == "mcall" and st[1][0] == "var" and st[1][1] in env and env[st[1][1]] is not None:
+            tv = env[st[1][1]]
+            if st[2] == "resize" and len(st[3]) == 2 and tv.ty == ("list", "u8") and tv.mut:
+                n = self.tx(st[3][0], env, "usize")
+                x = self.tx(st[3][1], env, "u8")
+                if n.ty not in ("usize", None) or (x.ty not in ("u8", None)) or (x.ty is None and x.lit is None):
+                    self.err(f"{st[1][1]}.resize arguments")
+                env2 = dict(env)
+                env2[st[1][1]] = WrVar(tv.lean, tv.ty, None, None, True)
+                return K.cond(wr_and(n.ex, x.ex), K.let(tv.lean, f"vecResize {tv.lean} {wr_par(n.lean)} {wr_par(x.lean)}", rest(env2), [tv.lean]))
+            if st[2] == "write_to_byte_slice" and len(st[3]) == 1 and tv.ty == "scratch":
+                a = st[3][0]
+                while a[0] == "paren" or (a[0] == "un" and a[1] in ("&", "*")):
+                    a = a[1] if a[0] == "paren" else a[2]
+                if a[0] != "var" or a[1] not in env or env[a[1]] is None or env[a[1]].ty != ("list", "u8") or not env[a[1]].mut:
+                    self.err("write_to_byte_slice into something that is not a reused byte vector")
+                dv = env[a[1]]
+                self.extra.setdefault("MemSink_write_to_byte_slice", "List Op → List Nat → List Nat")
+                env2 = dict(env)
+                env2[a[1]] = WrVar(dv.lean, dv.ty, None, None, True)
+                return K.let(dv.lean, f"MemSink_write_to_byte_slice {tv.lean} {dv.lean}", rest(env2), [dv.lean])
+        if self.scratch == sink and k == "mcall" and st[1] == ("var", sink) and st[2] == "reserve" and len(st[3]) == 1:
+            n = self.tx(st[3][0], env, "usize")     # capacity only; the argument is still evaluated
+            if n.ty not in ("usize", None):
+                self.err(f"{sink}.reserve of a {n.ty!r}")
+            return K.cond(n.ex, rest())
+        if self.scratch == sink and k == "mcall" and st[2] == "unwrap" and not st[3]:
+            # the scratch sink is a MemSink (Error = Infallible): `.unwrap()` cannot panic
+            st = ("try", st[1])
+            k = "try"
+        if k == "try":
+            x = self.strip_conv(st[1])
+            if self.scratch == sink and x[0] == "mcall" and x[2] == "write_extra_bits" and x[3] == [("var", sink)]:
+                r = self.tx(x[1], env)
+                if not (isinstance(r.ty, tuple) and r.ty[0] == "hdr"):
+                    self.err("write_extra_bits on a value that is not a header enum")
+                hw = self.hdr_write(r, "write_extra_bits", sink)
+                return K.seq(hw[0], hw[1], rest())
+            op = self.sink_op(x, env, sink)
+            if op is not None:
+                return K.cond(op[1], K.emit(op[0], rest()))
+            cw = self.comp_write(x, env, sink)
+            if cw is not None:
+                return K.seq(cw[0], cw[1], rest())
+            if x[0] == "tryrepeat":
+                v, ex = self.st_tryrepeat(x, env, K)
+                return K.seq(v, ex, rest())
+            self.err("`?` applied to something that is neither a sink operation, a component write nor try_repeat!")
+        if k in ("match", "if", "iflet", "block"):
+            if K.kind == "S" and set(self.assigned(st, set())) & set(K.state):
+                self.err("branch that assigns a variable carried by the enclosing loop")
+            sub = WrK("W", K.mode)
+            v = self.wbranch(st, env, sub)
+            if K.mode == "E":
+                return K.cond(None if v == "true" else wr_par(v), rest())
+            return K.seq(v, None, rest())
+        self.err(f"statement of kind `{k}`" + (f" (.{st[2]})" if k == "mcall" else ""))
+
+    def wbranch(self, e, env, K):
+        """a match / if / block whose branches are statement sequences writing to the sink"""
+        k = e[0]
+        if k == "block":
+            return self.walk(e[1], 0, e[2], dict(env), K)
+        if k == "match":
+            sv, arms = self.enum_arms(e[1], e[2], env)
+            rows = []
+            for pat, env2, body in arms:
+                if body[0] == "block":
+                    rows.append((pat, self.walk(body[1], 0, body[2], env2, K)))
+                else:
+                    # an arm `p => expr,`: a statement when it ends in `?`, otherwise the value of the match
+                    if body[0] == "try":
+                        rows.append((pat, self.walk([body], 0, None, env2, K)))
+                    else:
+                        rows.append((pat, self.walk([], 0, body, env2, K)))
+            return f"match {sv.lean} with\n" + "\n".join(f"| {p.strip()} =>\n{wr_ind(v, 4)}" for p, v in rows)
+        if k == "if":
+            c = self.tx(e[1], env)
+            if c.ty != "bool" or c.ex is not None:
+                self.err("`if` condition")
+            a = self.wbranch(e[2], env, K)
+            if e[3] is None:
+                b = K.final()
+            else:
+                b = self.wbranch(e[3], env, K)
+            return f"if {c.lean} then\n{wr_ind(wr_par(a))}\nelse\n{wr_ind(wr_par(b))}"
+        if k == "iflet":
+            pat, scrut, then, els = e[1], e[2], e[3], e[4]
+            sv = self.tx(scrut, env)
+            if not (isinstance(sv.ty, tuple) and sv.ty[0] == "opt") or sv.ex is not None:
+                self.err("if-let on something that is not an Option")
+            if not (pat[0] == "variant" and pat[1] == ["Some"] and len(pat[2]) == 1 and pat[2][0][0] == "bind"):
+                self.err("if-let pattern other than `Some(x)`")
+            if els is None or els[0] != "block":
+                self.err("if-let without a plain else block")
+            nm = pat[2][0][1]
+            env2 = dict(env)
+            env2[nm] = WrVar(wr_mangle(nm), sv.ty[1])
+            a = self.wbranch(then, env2, K)
+            b = self.wbranch(els, env, K)
+            return f"match {sv.lean} with\n| some {wr_mangle(nm)} =>\n{wr_ind(a, 4)}\n| none =>\n{wr_ind(b, 4)}"
+        self.err(f"branching statement of kind `{k}`")
+
+    def finish(self, tail, env, K):
+        if K.kind == "P":
+            if tail is None:
+                self.err("block without a final value")
+            v = self.tx(tail, env, K.want)
+            K.result_ty = v.ty if v.ty is not None else (K.want if v.lit is not None else None)
+            if v.ty is None and v.lit is not None and K.want is not None and not isinstance(v.lit, tuple):
+                self.fits(v.lit, K.want, "final value")
+            return v.lean if K.mode == "V" else (v.ex or "true")
+        if K.kind == "L":
+            if tail is not None:
+                self.err("loop body or branch with a final value")
+            return K.final()
+        if tail is None:
+            return K.final()
+        t = tail
+        while t[0] == "paren":
+            t = t[1]
+        if t[0] == "call" and t[1] == ("var", "Ok") and t[2] == [("unit",)]:
+            return K.final()
+        x = self.strip_conv(t)
+        op = self.sink_op(x, env, self.sink)
+        if op is not None:
+            return K.cond(op[1], K.emit(op[0], K.final()))
+        cw = self.comp_write(x, env, self.sink)
+        if cw is not None:
+            return K.seq(cw[0], cw[1], K.final())
+        if t[0] in ("match", "if", "iflet", "block"):
+            if K.kind != "W":
+                self.err("branching final expression inside a loop that carries state")
+            return self.wbranch(t, env, K)
+        if t[0] == "reuse":
+            if K.kind != "W":
+                self.err("`reuse!` inside a loop")
+            return self.w_reuse(t, env, K)
+        self.err(f"final expression of kind `{t[0]}` in a function that writes to a sink")
+
+    def mentions(self, node, name):
+        if isinstance(node, tuple):
+            if node == ("var", name):
+                return True
+            return any(self.mentions(x, name) for x in node)
+        if isinstance(node, list):
+            return any(self.mentions(x, name) for x in node)
+        return False
+
+    def only_reads(self, node, name, allowed):
+        """every occurrence of `name` in node is the receiver of one of the read-only methods `allowed`"""
+        if isinstance(node, tuple):
+            if node[:1] == ("mcall",) and node[1] == ("var", name) and node[2] in allowed:
+                return all(self.only_reads(x, name, allowed) for x in node[3])
+            if node == ("var", name):
+                return False
+            return all(self.only_reads(x, name, allowed) for x in node)
+        if isinstance(node, list):
+            return all(self.only_reads(x, name, allowed) for x in node)
+        return True
+
+    def w_reuse(self, t, env, K):
+        """`reuse!(KEY, |x: &mut T| { <sink>.clear(); <fill the scratch sink>; <forward its content to dest> })`.
+        T is a scratch sink, or a tuple of one scratch sink and reused byte vectors bound by `let v = &mut x.i;`."""
+        key, clo = t[1], t[2]
+        if key not in self.reusables:
+            self.err(f"reuse!({key}, ..): no `reusable!({key}: ..)` in bitrepr.rs")
+        (x, xty), body = clo[1][0], clo[2]
+        tys = "".join(t_ for t_ in (xty or []) if t_ not in ("&", "mut"))
+        if tys != self.reusables[key]:
+            self.err(f"reuse!({key}, ..): closure parameter of type `{tys}`, storage of type `{self.reusables[key]}`")
+        if body[0] != "block" or self.scratch is not None:
+            self.err("reuse!: closure body")
+        stmts, tail = list(body[1]), body[2]
+        dest = self.sink
+        if x in env or x == dest:
+            self.err("reuse!: the closure parameter shadows a name")
+        sinks = {"ByteSink": "MemSink<u8>", "MemSink<u8>": "MemSink<u8>", "MemSink<u64>": "MemSink<u64>"}
+        env = dict(env)
+        vecs = []
+        if tys in sinks:
+            sname, real = x, sinks[tys]
+        else:
+            if not (tys.startswith("(") and tys.endswith(")")):
+                self.err(f"reuse! over a `{tys}`")
+            comps = wr_split_top(hdr_lex(tys[1:-1], "reusable type"))
+            comps = ["".join(c) for c in comps]
+            sname = real = None
+            seen = set()
+            while stmts and stmts[0][0] == "let" and stmts[0][3][0] == "un" and stmts[0][3][1] == "&" \
+                    and stmts[0][3][2][0] == "tupidx" and stmts[0][3][2][1] == ("var", x):
+                st = stmts.pop(0)
+                idx = st[3][2][2]
+                if st[1][0] != "bind" or st[2] is not None or idx >= len(comps) or idx in seen or st[1][1] in env:
+                    self.err("reuse!: `let v = &mut x.i;`")
+                seen.add(idx)
+                nm = st[1][1]
+                if comps[idx] in sinks:
+                    if sname is not None:
+                        self.err("reuse!: two scratch sinks")
+                    sname, real = nm, sinks[comps[idx]]
+                elif comps[idx] == "Vec<u8>":
+                    # reused byte vector: its content on entry is arbitrary -> a parameter of the generated function
+                    pn = f"{key}_{idx}"
+                    self.extra.setdefault(pn, "List Nat")
+                    env[nm] = WrVar(pn, ("list", "u8"), None, None, True)
+                    vecs.append(nm)
+                else:
+                    self.err(f"reuse!: storage component of type `{comps[idx]}`")
+            if sname is None:
+                self.err("reuse!: no scratch sink among the storage components")
+            if self.mentions(stmts, x) or (tail is not None and self.mentions(tail, x)):
+                self.err(f"reuse!: `{x}` is used other than through `let v = &mut {x}.i;`")
+        # the content on entry is whatever the previous use left: the first statement must clear the sink
+        if not stmts or stmts[0] != ("mcall", ("var", sname), "clear", [], None):
+            self.err(f"reuse!: the closure does not start with `{sname}.clear();`")
+        j = 1
+        while j < len(stmts) and not self.mentions(stmts[j], dest) and not any(self.mentions(stmts[j], v) for v in vecs):
+            j += 1
+        fill, drain = stmts[1:j], stmts[j:]
+        reads = {"MemSink<u8>": ("as_slice", "len"), "MemSink<u64>": ("len", "write_to_byte_slice")}[real]
+        if not self.only_reads(drain, sname, reads) or (tail is not None and not self.only_reads(tail, sname, reads)):
+            self.err(f"reuse!: `{sname}` is written after its content was forwarded to `{dest}`")
+        self.scratch, self.scratch_ty, self.sink = sname, real, sname
+        try:
+            f = self.walk(fill, 0, None, dict(env), WrK("W", K.mode))
+        finally:
+            self.scratch, self.sink = None, dest
+        env2 = dict(env)
+        env2[sname] = WrVar(wr_mangle(sname), "scratch")
+        d = self.walk(drain, 0, tail, env2, K)
+        self.scratch_ty = None
+        if K.mode == "E":
+            if d == "true":
+                return f
+            self.err("reuse!: arithmetic while forwarding the scratch content")
+        return f"bindW {wr_par(f)} fun {wr_mangle(sname)} =>\n{d}"
+
+    # ---- loops
+    def loop_values(self, it, env):
+        """iterator of a `for` -> (lean list, exactness, element type)"""
+        if it[0] == "range":
+            lo = self.tx(it[1], env, "usize")
+            hi = self.tx(it[2], env, lo.ty if lo.ty is not None else "usize")
+            if lo.ty is None and hi.ty is not None:
+                lo = self.tx(it[1], env, hi.ty)
+            ty = hi.ty if hi.ty is not None else lo.ty
+            if not wr_is_u(ty):
+                self.err(f"range over {ty!r}")
+            for z in (lo, hi):
+                if z.ty is None and z.lit is not None:
+                    self.fits(z.lit, ty, "range bound")
+                elif z.ty != ty:
+                    self.err("range bounds of different types")
+            return f"countUp {wr_par(lo.lean)} {wr_par(hi.lean)} 1", wr_and(lo.ex, hi.ex), ty
+        v = self.tx(it, env)
+        if isinstance(v.ty, tuple) and v.ty[0] == "list":
+            return v.lean, v.ex, v.ty[1]
+        self.err(f"`for` over a value of type {v.ty!r}")
+
+    def st_for(self, st, env, K, rest):
+        var, it, body = st[1], st[2], st[3]
+        vals, vex, ety = self.loop_values(it, env)
+        return self.loop(var, ety, vals, vex, body[1], body, env, K, rest, None)
+
+    def st_while(self, st, env, K, rest):
+        cond, body = st[1], st[2]
+        c = cond
+        while c[0] == "paren":
+            c = c[1]
+        if not (c[0] == "bin" and c[1] == "<" and c[2][0] == "var"):
+            self.err("`while` whose condition is not `<counter> < <bound>`")
+        v = c[2][1]
+        if v not in env or env[v] is None or not env[v].mut:
+            self.err(f"`while {v} < ..`: `{v}` is not a `let mut` local")
+        if body[2] is not None or not body[1]:
+            self.err("`while` body")
+        last = body[1][-1]
+        if not (last[0] == "assign" and last[1] == "+=" and last[2] == ("var", v)):
+            self.err(f"`while {v} < ..` whose body does not end with `{v} += <step>;`")
+        inner = body[1][:-1]
+        asg = self.assigned(("block", inner, None), set())
+        if v in asg:
+            self.err(f"`while {v} < ..`: the counter is assigned inside the body")
+        step = self.tx(last[3], env, env[v].ty)
+        if step.lit is None or isinstance(step.lit, tuple) or step.lit <= 0:
+            self.err("counting loop whose step is not a positive constant")
+        bound = self.tx(c[3], env, env[v].ty)
+        bw = wr_words(bound.lean)
+        for n in asg:
+            if wr_mangle(n) in bw:
+                self.err(f"counting loop whose bound depends on `{n}`, which the body assigns")
+        ty = bound.ty if bound.ty is not None else env[v].ty
+        if not wr_is_u(ty):
+            self.err(f"counting loop over {ty!r}")
+        vals = f"countUp {wr_par(env[v].lean)} {wr_par(bound.lean)} {wr_par(step.lean)}"
+        # the last `counter += step` must not overflow
+        vex = wr_and(bound.ex, f"decide ({bound.lean} + {step.lean} ≤ {2 ** HDR_BITS[ty]})")
+        return self.loop(v, ty, vals, vex, inner, body, env, K, rest, v)
+
+    def loop(self, var, ety, vals, vex, stmts, body, env, K, rest, poison):
+        if body[2] is not None:
+            self.err("loop body with a final value")
+        M = [n for n in self.assigned(("block", stmts, None), {var}) if n in env and env[n] is not None]
+        for n in M:
+            if not env[n].mut:
+                self.err(f"assignment to `{n}`, which is not `let mut`")
+        env_b = dict(env)
+        env_b[var] = WrVar(wr_mangle(var), ety)
+        for n in M:
+            env_b[n] = WrVar(wr_mangle(n), env[n].ty, None, None, True)
+        env_r = dict(env)
+        for n in M:
+            env_r[n] = WrVar(wr_mangle(n), env[n].ty, None, None, True)
+        if poison is not None:
+            env_r[poison] = None
+        lv = wr_mangle(var)
+        if K.kind in ("W", "S"):
+            if not M:
+                sub = WrK("W", K.mode)
+                b = self.walk(stmts, 0, None, env_b, sub)
+                if K.mode == "E":
+                    c = None if b == "true" else f"{wr_par(vals)}.all (fun {lv} =>\n{wr_ind(b, 4)})"
+                    return K.cond(wr_and(vex, c), rest(env_r))
+                return K.seq(f"forW {wr_par(vals)} (fun {lv} =>\n{wr_ind(b, 4)})", None, rest(env_r))
+            if K.kind == "S":
+                self.err("nested loops that both carry mutable state")
+            sub = WrK("S", K.mode, M)
+            b = self.walk(stmts, 0, None, env_b, sub)
+            # the rest may type the carried variables differently (an untyped literal initial value): re-type from the body
+            self.retype(stmts, env_b, M, env_r)
+            if K.mode == "E":
+                return K.cond(vex, f"bindE (loopE {wr_par(vals)} {sub.st()} (fun {lv} {sub.st()} =>\n{wr_ind(b, 4)})) fun {sub.st()} =>\n{rest(env_r)}")
+            return f"bindS (loopS {wr_par(vals)} {sub.st()} (fun {lv} {sub.st()} =>\n{wr_ind(b, 4)})) fun {sub.st()} =>\n{rest(env_r)}"
+        # pure function: the loop only updates the carried variables
+        if not M:
+            self.err("loop without effect")
+        sub = WrK("L", K.mode, M)
+        b = self.walk(stmts, 0, None, env_b, sub)
+        self.retype(stmts, env_b, M, env_r)
+        if K.mode == "E":
+            be = "bindE" if K.kind == "P" else "bindEE"
+            return K.cond(vex, f"{be} (loopE {wr_par(vals)} {sub.st()} (fun {lv} {sub.st()} =>\n{wr_ind(b, 4)})) fun {sub.st()} =>\n{rest(env_r)}")
+        return f"let {sub.st()} := List.foldl (fun {sub.st()} {lv} =>\n{wr_ind(b, 4)}) {sub.st()} {wr_par(vals)}\n{rest(env_r)}"
+
+    def retype(self, stmts, env_b, M, env_r):
+        """type of a carried variable that starts as an untyped literal: the type of the first value assigned to it"""
+        for n in M:
+            if env_r[n].ty is None:
+                for st in stmts:
+                    if st[0] == "assign" and st[2] == ("var", n):
+                        try:
+                            v = self.tx(st[3], env_b)
+                        except Unreadable:
+                            continue
+                        if v.ty is not None:
+                            env_r[n].ty = v.ty
+                            break
+
+    def st_tryrepeat(self, x, env, K):
+        ctr, upto, cond, body = x[1], x[2], x[3], x[4]
+        n = self.tx(upto, env, "usize")
+        if n.lit is None or isinstance(n.lit, tuple) or (n.ty not in (None, "usize")):
+            self.err("try_repeat!: the repeat count is not a `usize` constant")
+        if self.assigned(body, {ctr}):
+            self.err("try_repeat!: the body assigns an outer variable")
+        env2 = dict(env)
+        env2[ctr] = WrVar(wr_mangle(ctr), "usize")
+        c = self.tx(cond, env2)
+        if c.ty != "bool":
+            self.err("try_repeat!: condition")
+        sub = WrK("W", K.mode)
+        b = self.walk(body[1], 0, body[2], env2, sub)
+        lc = wr_mangle(ctr)
+        if K.mode == "E":
+            if b == "true" and c.ex is None:
+                return None, None
+            return None, (f"repeatWhileE {wr_par(n.lean)} (fun {lc} => decide {wr_par(c.lean)}) (fun {lc} => {c.ex or 'true'}) (fun {lc} =>\n"
+                          f"{wr_ind(b, 4)})")
+        return f"repeatWhile {wr_par(n.lean)} (fun {lc} => decide {wr_par(c.lean)}) (fun {lc} =>\n{wr_ind(b, 4)})", None
+
+    def st_if_pure(self, st, env, K, rest):
+        c = self.tx(st[1], env)
+        if c.ty != "bool":
+            self.err("`if` condition is not a boolean")
+        if st[2][0] != "block" or (st[3] is not None and st[3][0] != "block"):
+            self.err("`else if` chain as a statement")
+        els = st[3] if st[3] is not None else ("block", [], None)
+        M = [n for n in self.assigned(("block", [st[2], els], None), set()) if n in env and env[n] is not None]
+        if not M:
+            self.err("`if` statement without effect")
+        for n in M:
+            if not env[n].mut:
+                self.err(f"assignment to `{n}`, which is not `let mut`")
+        sub = WrK("L", K.mode, M)
+        a = self.walk(st[2][1], 0, st[2][2], dict(env), sub)
+        b = self.walk(els[1], 0, els[2], dict(env), sub)
+        env_r = dict(env)
+        for n in M:
+            env_r[n] = WrVar(wr_mangle(n), env[n].ty, None, None, True)
+        self.retype(st[2][1] + els[1], env, M, env_r)
+        ite = f"if {c.lean} then\n{wr_ind(wr_par(a), 4)}\n  else\n{wr_ind(wr_par(b), 4)}"
+        if K.mode == "E":
+            be = "bindE" if K.kind == "P" else "bindEE"
+            return K.cond(c.ex, f"{be} ({ite}) fun {sub.st()} =>\n{rest(env_r)}")
+        return f"let {sub.st()} :=\n  ({ite})\n{rest(env_r)}"
+
+    # ---------------------------------------------------------------- functions
+    def translate_fn(self, fname, trait, owner, name):
+        items = self.files[fname]
+        table = items.fns if owner is None else items.impls.get((trait, owner))
+        what = f"{fname}: " + (f"impl {(trait + ' for ') if trait else ''}{owner}" if owner else "free functions")
+        if table is None:
+            fail(f"{what} not found")
+        if name not in table:
+            fail(f"{what}: fn {name} not found")
+        rec = table[name]
+        lname = f"{owner}.{name}" if owner else name
+        self.where = f"{fname}: fn {lname}"
+        self.owner = owner
+        self.extra = {}
+        if rec["body"] is None:
+            self.err("no body")
+        if any(a.startswith("#[cfg") for a in rec["attrs"]):
+            self.err("conditionally compiled function")
+        env = {}
+        lparams = []
+        ptys = []
+        self.sink = None
+        self_kind = None
+        gnames = [g for g in rec["generics"] if re.fullmatch(r"[A-Z][A-Za-z0-9]*", g)]
+        for p in rec["params"]:
+            if p in (["self"], ["&", "self"]):
+                if owner is None:
+                    self.err("self parameter in a free function")
+                lp, sv = self.self_value(owner)
+                lparams += lp
+                env["self"] = WrVar(sv.lean, sv.ty, None, sv.view)
+                self_kind = "ctor" if sv.view is not None else "value"
+                continue
+            if p[:1] == ["mut"] or p[:3] == ["&", "mut", "self"]:
+                self.err("mutable parameter")
+            if len(p) < 3 or p[1] != ":":
+                self.err(f"parameter `{' '.join(p)}`")
+            pn, pt = p[0], p[2:]
+            if pt[:2] == ["&", "mut"] and len(pt) == 3 and pt[2] in gnames:
+                if self.sink is not None:
+                    self.err("two sink parameters")
+                self.sink = pn
+                continue
+            ty = self.ty(pt)
+            env[pn] = WrVar(wr_mangle(pn), ty)
+            ptys.append(ty)
+            lparams.append(f"({wr_mangle(pn)} : {self.lty(ty)})")
+        if not rec["ret"]:
+            self.err("no return type")
+        rty = self.ty(rec["ret"])
+        lo, hi = rec["body"]
+        ps = WrParser(items.toks, lo, hi, self.where)
+        body = ps.block()
+        if ps.p != hi:
+            self.err("trailing tokens after the body")
+        if rty == "writes":
+            if self.sink is None:
+                self.err("Result<(), _> function without a sink parameter")
+            kv, ke = WrK("W", "V"), WrK("W", "E")
+        else:
+            if self.sink is not None:
+                self.err("sink parameter in a function that does not return Result<(), _>")
+            kv, ke = WrK("P", "V", want=rty), WrK("P", "E", want=rty)
+        v = self.walk(body[1], 0, body[2], dict(env), kv)
+        x = self.walk(body[1], 0, body[2], dict(env), ke)
+        if rty != "writes":
+            got = kv.result_ty
+            if got != rty:
+                self.err(f"body has type {got!r}, declared {rty!r}")
+        extra = list(self.extra.items())
+        sig = " ".join([f"({n} : {t})" for n, t in extra] + lparams)
+        has_ex = x != "true"
+        self.fns[(owner, name)] = dict(lean=lname, self_kind=self_kind, ptys=ptys, ret=rty, has_ex=has_ex,
+                                       extra=[n for n, _ in extra], extra_types=extra)
+        L = []
+        doc = f"`{(trait + ' for ') if trait else ''}{owner + '::' if owner else ''}{name}` ({fname})"
+        L.append(f"/-- {doc} -/")
+        L.append(f"def {lname} {sig} : {self.lty(rty)} :=".replace("  :", " :"))
+        L.append(wr_ind(v))
+        L.append("")
+        if has_ex:
+            L.append(f"/-- `{lname}`: no step panics in the dev profile (overflow of `+ - *`, shift amount, index out of "
+                     f"bounds, `assert!`, a bit count larger than the operand). -/")
+            L.append(f"def {lname}_exact {sig} : Bool :=".replace("  :", " :"))
+            L.append(wr_ind(x))
+            L.append("")
+        return L
+
+
+WR_PRELUDE = '''/-- Effect of `write` on the caller's sink: `none` = the function itself returns `Err` (a `RangeError`);
+`some ops` = it issued exactly the `BitSink` calls `ops`, in this order (every sink error is returned with `?`,
+so a failing sink sees a prefix: `FlacVerif.writeFailing`). -/
+abbrev W := Option (List Op)
+
+/-- `dest.op(..)?; rest` -/
+def emit (ops : List Op) (rest : W) : W := match rest with | none => none | some r => some (ops ++ r)
+
+/-- `a?; b` -/
+def seqW (a b : W) : W := match a with | none => none | some x => (match b with | none => none | some y => some (x ++ y))
+
+/-- `for x in xs { f(x)?; }` -/
+def forW {α : Type} : List α → (α → W) → W
+  | [], _ => some []
+  | x :: xs, f => seqW (f x) (forW xs f)
+
+/-- The values of the counter of `for i in a..b` (`k = 1`) and of
+`let mut i = a; while i < b { ..; i += k; }` (`k` a positive constant). -/
+def countUp (a b k : Nat) : List Nat := (List.range ((b - a + (k - 1)) / k)).map (fun j => a + j * k)
+
+def repeatWhileAux (c : Nat → Bool) (f : Nat → W) : List Nat → W
+  | [] => some []
+  | t :: ts => if c t then seqW (f t) (repeatWhileAux c f ts) else some []
+
+/-- `try_repeat!(t to n; while c => f)`: for `t` in `0..n`: if `!c(t)` return `Ok(())`; `f(t)?`. -/
+def repeatWhile (n : Nat) (c : Nat → Bool) (f : Nat → W) : W := repeatWhileAux c f (List.range n)
+
+/-- Operation list together with the values of the `let mut` variables a loop body assigns. -/
+abbrev WS (σ : Type) := Option (List Op × σ)
+def retS {σ : Type} (s : σ) : WS σ := some ([], s)
+def emitS {σ : Type} (ops : List Op) (rest : WS σ) : WS σ :=
+  match rest with | none => none | some (r, s) => some (ops ++ r, s)
+def seqS {σ : Type} (a : W) (rest : WS σ) : WS σ :=
+  match a with | none => none | some x => (match rest with | none => none | some (r, s) => some (x ++ r, s))
+/-- A loop whose body assigns outer `let mut` variables: they are threaded through the iterations. -/
+def loopS {α σ : Type} : List α → σ → (α → σ → WS σ) → WS σ
+  | [], s, _ => some ([], s)
+  | x :: xs, s, f =>
+    match f x s with
+    | none => none
+    | some (o, s') => (match loopS xs s' f with | none => none | some (o2, s2) => some (o ++ o2, s2))
+def bindS {σ : Type} (a : WS σ) (k : σ → W) : W :=
+  match a with | none => none | some (o, s) => (match k s with | none => none | some r => some (o ++ r))
+
+/-- `let v = f(..)?; rest` for a function returning `Result<T, RangeError>` -/
+def bindO {α : Type} (a : Option α) (k : α → W) : W := match a with | none => none | some v => k v
+
+/-- A `reuse!` closure over a scratch sink: the statements that fill the (cleared) scratch sink, then the
+statements that forward its content to the caller's sink. `fill = none`: the closure returned `Err` while filling. -/
+def bindW (fill : W) (k : List Op → W) : W := match fill with | none => none | some ops => k ops
+
+/-- `Vec::resize(n, x)` -/
+def vecResize (v : List Nat) (n x : Nat) : List Nat := v.take n ++ List.replicate (n - v.length) x
+
+/-- `write_lsbs(v, n)` calls of a writer function translated by part `headers`, as `Op`s. Part `headers` does not
+record the operand type; `64` is a placeholder (`Op.ideal` does not depend on the operand width). -/
+def hdrOps (w : FlacVerif.Gen.Headers.Writes) : W :=
+  match w with | none => none | some ws => some (ws.map fun p => Op.writeLsbs 64 p.1 p.2)
+
+/-! exactness conditions (`_exact`) -/
+def bindOE {α : Type} (a : Option α) (k : α → Bool) : Bool := match a with | none => true | some v => k v
+def andB (a b : Bool) : Bool := a && b
+def andE {σ : Type} (a : Bool) (r : Bool × σ) : Bool × σ := (a && r.1, r.2)
+def loopE {α σ : Type} (xs : List α) (s : σ) (f : α → σ → Bool × σ) : Bool × σ :=
+  xs.foldl (fun acc x => let r := f x acc.2; (acc.1 && r.1, r.2)) (true, s)
+def bindE {σ : Type} (r : Bool × σ) (k : σ → Bool) : Bool := r.1 && k r.2
+def bindEE {σ τ : Type} (r : Bool × σ) (k : σ → Bool × τ) : Bool × τ := let q := k r.2; (r.1 && q.1, q.2)
+def repeatWhileEAux (c cex bex : Nat → Bool) : List Nat → Bool
+  | [] => true
+  | t :: ts => cex t && (if c t then bex t && repeatWhileEAux c cex bex ts else true)
+def repeatWhileE (n : Nat) (c cex bex : Nat → Bool) : Bool := repeatWhileEAux c cex bex (List.range n)
+'''
+
+
+def wr_fingerprint(toks):
+    return hashlib.sha256(" ".join(toks).encode()).hexdigest()[:16]
+
+
+def wr_macro_defs(fname, src_toks):
+    """token text of `macro_rules! NAME { .. }` items and of top-level `seq!( .. );` invocations"""
+    out = {}
+    t = src_toks
+    it = HdrItems.__new__(HdrItems)
+    it.fname, it.toks = fname, t
+    i = 0
+    while i < len(t):
+        if t[i] == "macro_rules" and t[i + 1] == "!" and t[i + 3] == "{":
+            j = it.group_end(i + 3)
+            out[t[i + 2]] = t[i:j]
+            i = j
+            continue
+        if t[i] == "seq" and t[i + 1] == "!" and t[i + 2] == "(":
+            j = it.group_end(i + 2)
+            out.setdefault("seq", [])
+            out["seq"] = out["seq"] + t[i:j]
+            i = j
+            continue
+        if t[i] in ("{", "(", "["):
+            i = it.group_end(i)
+            continue
+        i += 1
+    return out
+
+
+def emit_writer():
+    comp = os.path.join(REPO, "src", "component")
+    files = {}
+    for fn in ("bitrepr.rs", "datatype.rs"):
+        path = os.path.join(comp, fn)
+        if not os.path.exists(path):
+            fail(f"{fn}: file not found")
+        files[fn] = HdrItems(fn, hdr_lex(open(path).read(), fn))
+    br, dt = files["bitrepr.rs"], files["datatype.rs"]
+    if not HDR_DONE:
+        fail("bitrepr.rs: part `headers` did not run (Gen/Headers.lean is imported by Gen/Writer.lean)")
+    # the set of BitRepr impls and of their functions must be the one this part was written for
+    impls = {o: t for (tr, o), t in br.impls.items() if tr == "BitRepr"}
+    spec = dict(WR_SPEC)
+    spec_all = set(spec) | {"ChannelAssignment"}
+    if set(impls) != spec_all:
+        fail(f"bitrepr.rs: the types implementing BitRepr are {sorted(impls)}, expected {sorted(spec_all)}")
+    for o, names in spec.items():
+        have = set(impls[o])
+        want = set(names) | {n for (oo, n) in WR_UNTRANSLATED if oo == o}
+        if have != want:
+            fail(f"bitrepr.rs: impl BitRepr for {o} defines {sorted(have)}, expected {sorted(want)}")
+    # macros with a built-in reading
+    rp = os.path.join(REPO, "src", "repeat.rs")
+    if not os.path.exists(rp):
+        fail("repeat.rs: file not found")
+    lp = os.path.join(REPO, "src", "lib.rs")
+    if not os.path.exists(lp):
+        fail("lib.rs: file not found")
+    mds = {"repeat.rs": wr_macro_defs("repeat.rs", hdr_lex(open(rp).read(), "repeat.rs")),
+           "lib.rs": wr_macro_defs("lib.rs", hdr_lex(open(lp).read(), "lib.rs"))}
+    for (fn, m), fp in WR_MACRO_FP.items():
+        md = mds[fn]
+        if m not in md:
+            fail(f"{fn}: definition of `{m}!` not found")
+        got = wr_fingerprint(md[m])
+        if got != fp:
+            fail(f"{fn}: the definition of `{m}!` changed (fingerprint {got}, the translator's reading was written for {fp})")
+    t = br.toks
+    use_max = set()
+    for i in range(len(t) - 6):
+        if t[i:i + 5] == ["use", "std", "::", "cmp", "::"] and t[i + 5] in ("max", "min") and t[i + 6] == ";":
+            use_max.add(t[i + 5])
+    gen_defs = wr_scan_types(dt, set(WR_GENERATED) | {"SubFrame"})
+    tx = WrTx(files, gen_defs, wr_scan_consts(br), dict(HDR_DONE), use_max)
+    tx.parse_gen_types()
+    for i in range(len(t) - 8):
+        if t[i] == "static" and t[i + 2] == ":" and t[i + 3:i + 7] == ["crc", "::", "Crc", "<"] and t[i + 7] in HDR_BITS:
+            tx.statics[t[i + 1]] = t[i + 7]
+        if t[i] == "reusable" and t[i + 1] == "!" and t[i + 2] == "(" and t[i + 4] == ":":
+            j = i + 5
+            ty_ = []
+            d = 0
+            while not (t[j] in ("=", ")") and d == 0):
+                if t[j] in ("(", "<"):
+                    d += 1
+                elif t[j] in (")", ">"):
+                    d -= 1
+                ty_.append(t[j])
+                j += 1
+            tx.reusables[t[i + 3]] = "".join(ty_)
+    body = []
+    for fn, owner, name in WR_HELPERS:
+        body += tx.translate_fn(fn, None, owner, name)
+    for owner, names in WR_SPEC:
+        for name in names:
+            body += tx.translate_fn("bitrepr.rs", "BitRepr", owner, name)
+    L = ["-- GENERATED by tools/translate.py (part `writer`) from src/component/bitrepr.rs and src/component/datatype.rs — do not edit",
+         "/-",
+         "Statement-by-statement mirror of `impl BitRepr for X { fn count_bits; fn write }`.",
+         "",
+         "`X.write v : W` is the list of `BitSink` calls `write` issues on the caller's sink for the component value `v`,",
+         "in program order (`none` = `write` itself returns `Err`): `dest.write_lsbs(e, n)` becomes",
+         "`Op.writeLsbs <bits of the Rust type of e> e n`, a `for` / counting `while` loop becomes `forW` / `loopS` over the",
+         "same range, `x.write(dest)?` becomes the callee's list.  `X.count_bits v : Nat` is the value of `count_bits`.",
+         "",
+         "Integers are modelled on `Nat` / `Int`.  Where Rust silently discards bits the discarding is part of the generated",
+         "term (`e as T` to a narrower `T` is `e % 2^bits(T)`; `a << b` is `(a <<< b) % 2^bits`).  Where Rust panics in the dev",
+         "profile (overflow of `+ - *`, a shift amount >= the width, an index out of bounds, `assert!` / `debug_assert!`,",
+         "a bit count larger than the operand) the `Nat` term is only the Rust value when the condition `X.f_exact v` emitted",
+         f"next to the function holds.  The domains of the inputs (u8 < 256, ..., usize = {HDR_BITS['usize']} bits) are NOT built in:",
+         "theorems carry them as hypotheses.",
+         "",
+         "External functions (`encode_to_utf8like`, `crc::Crc::checksum`, the read-out of a scratch `MemSink`) and the entry",
+         "content of reused byte vectors are PARAMETERS of the generated functions (listed at the end of this file).",
+         "",
+         "Component values: `StreamInfo`, `Residual` and the four subframe kinds are the hand-written model's structures",
+         "(`FlacVerif.StreamInfo`, `FlacVerif.Residual`, the constructors of `FlacVerif.SubFrame`); their Rust accessors are",
+         "mapped to model fields by the table WR_MODEL of the translator, reproduced at the end of this file.",
+         f"{', '.join(WR_GENERATED)} are generated below from their Rust definitions.",
+         "-/",
+         "import FlacVerif.Model.Ops",
+         "import FlacVerif.Gen.Headers",
+         "set_option linter.unusedVariables false",
+         "namespace FlacVerif.Gen.Writer", "", WR_PRELUDE]
+    for n in tx.used_consts:
+        v, ty = tx.consts[n]
+        L += [f"/-- `const {n}: {ty}` (bitrepr.rs) -/", f"def {n} : Nat := {v}", ""]
+    for n in WR_GENERATED:
+        kind, d = tx.gen[n]
+        tx.where = f"datatype.rs: {kind} {n}"
+        if kind == "struct":
+            L.append(f"/-- `struct {n}` (datatype.rs) -/")
+            L.append(f"structure {n} where")
+            for f, ty in d:
+                L.append(f"  {wr_mangle(f)} : {tx.lty(ty)}")
+        else:
+            L.append(f"/-- `enum {n}` (datatype.rs) -/")
+            L.append(f"inductive {n} where")
+            for v, vk, fields in d:
+                L.append(f"  | {v} " + " ".join(f"({wr_mangle(f)} : {tx.lty(ty)})" for f, ty in fields))
+        L.append("  deriving Repr, DecidableEq")
+        L.append("")
+    L += body
+    L.append("/- NOT translated (callers take these functions as a parameter):")
+    for (o, n), why in WR_UNTRANSLATED.items():
+        L.append(f"   {(o + '::') if o else ''}{n} — {why}")
+    L.append("   <static crc::Crc<uN, _>>.checksum(bytes); <scratch sink>.as_slice() / .len() / .write_to_byte_slice(dest) — external to "
+             "bitrepr.rs; parameters `X_checksum : List Nat → Nat`, `ByteSink_as_slice : List Op → List Nat`, "
+             "`MemSink_len : List Op → Nat`, `MemSink_write_to_byte_slice : List Op → List Nat → List Nat` (operations received "
+             "since `clear()`, destination before -> destination after)")
+    L.append("   the entry content of a reused `Vec<u8>` (`reusable!` storage) — arbitrary: parameter `<KEY>_<index> : List Nat`")
+    L.append("   BitRepr for ChannelAssignment — translated by part `headers` (Gen/Headers.lean)")
+    L.append("")
+    L.append("   Accessor table (trusted; the Rust body of each accessor is compared with datatype.rs when it is used):")
+    for T, info in WR_MODEL.items():
+        if "acc" not in info:
+            continue
+        head = {"struct": f"{T} = {info.get('lean')}",
+                "ctor": f"{T} = {info.get('of')}.{info.get('ctor')} " + " ".join(f for f, _ in info.get("fields", [])) if info["kind"] == "ctor" else "",
+                "part": f"{T} = the arguments {' '.join(info['fields']) if info['kind'] == 'part' else ''} of its parent {info.get('of')}"}[info["kind"]]
+        L.append(f"   {head}")
+        for m, (b, tmpl) in info["acc"].items():
+            L.append(f"     {m}()  [{b}]  ->  {tmpl}")
+    L.append("   Sink methods: " + ", ".join(f"{m} -> {c}" for m, (c, _) in WR_SINK_OPS.items()))
+    L.append("-/")
+    L += ["", "end FlacVerif.Gen.Writer", ""]
+    return "\n".join(L)
+
+
 def main():
     """Each generated file is produced independently, so that a source file the translator cannot read
     breaks only the properties whose theorems are stated against that file. Status per part is written
@@ -2501,6 +5109,15 @@ def main():
         status["headers"] = f"translator cannot read {e}"
     except Exception as e:  # fail closed on anything the parser did not anticipate
         status["headers"] = f"translator cannot read datatype.rs/bitrepr.rs: internal error {type(e).__name__}: {e}"
+    try:
+        if status["headers"] != "ok":
+            fail("bitrepr.rs: part `headers` failed (Gen/Writer.lean imports Gen/Headers.lean)")
+        write("Writer.lean", emit_writer())
+        status["writer"] = "ok"
+    except Unreadable as e:
+        status["writer"] = f"translator cannot read {e}"
+    except Exception as e:  # fail closed on anything the parser did not anticipate
+        status["writer"] = f"translator cannot read bitrepr.rs: internal error {type(e).__name__}: {e}"
     os.makedirs(os.path.join(ROOT, ".cache"), exist_ok=True)
     json.dump(status, open(os.path.join(ROOT, ".cache", "translate_status.json"), "w"), indent=1)
     bad = [v for v in status.values() if v != "ok"]
